@@ -6,642 +6,666 @@ use generic_array::typenum::*;
 use core::borrow::{Borrow, BorrowMut};
 type GA<T, N> = GenericArray<T, N>;
 mod q0 { use super::*; fn p(a: GA<u8, U0>, b: GA<u8, U0>) { let _ = a.zip(b, |x, y| x.wrapping_add(y)); } }
-mod q1 { use super::*; fn p(a: GA<u8, U0>, b: GA<u8, U0>) { let _c: GA<u8, U0> = a.concat(b); } }
-mod q2 { use super::*; fn p(a: GA<u8, U0>, b: GA<u8, U1>) { let _ = a.zip(b, |x, y| x.wrapping_add(y)); } }
-mod q3 { use super::*; fn p(a: GA<u8, U0>, b: GA<u8, U1>) { let _c: GA<u8, U0> = a.concat(b); } }
-mod q4 { use super::*; fn p(a: &GA<GA<u8, U0>, U1>) { let _f: &GA<u8, U1> = a.flatten(); } }
-mod q5 { use super::*; fn p(a: GA<u8, U0>, b: GA<u8, U2>) -> core::cmp::Ordering { core::cmp::Ord::cmp(&a, &b) } }
-mod q6 { use super::*; fn p(a: &GA<GA<u8, U0>, U2>) { let _f: &GA<u8, U0> = a.flatten(); } }
-mod q7 { use super::*; fn p(a: &GA<u8, U0>, b: &GA<u8, U3>) { let _ = a.zip(b, |x, y| x.wrapping_add(*y)); } }
-mod q8 { use super::*; fn p(a: GA<u8, U0>, b: GA<u8, U3>) { let _c: GA<u8, U2> = a.concat(b); } }
-mod q9 { use super::*; fn p(a: &GA<GA<u8, U0>, U3>) { let _f: &GA<u8, U1> = a.flatten(); } }
-mod q10 { use super::*; fn p(a: GA<u8, U0>, b: GA<u8, U4>) -> bool { a == b } }
-mod q11 { use super::*; fn p(a: GA<u8, U0>, b: GA<u8, U4>) { let _c: GA<u8, U5> = a.concat(b); } }
-mod q12 { use super::*; fn p(a: &GA<GA<u8, U0>, U4>) { let _f: &GA<u8, U4> = a.flatten(); } }
-mod q13 { use super::*; fn p(a: GA<u8, U0>, b: GA<u8, U5>) -> core::cmp::Ordering { core::cmp::Ord::cmp(&a, &b) } }
-mod q14 { use super::*; fn p(a: &GA<GA<u8, U0>, U5>) { let _f: &GA<u8, U0> = a.flatten(); } }
-mod q15 { use super::*; fn p(a: &GA<u8, U0>, b: &GA<u8, U6>) { let _ = a.zip(b, |x, y| x.wrapping_add(*y)); } }
-mod q16 { use super::*; fn p(a: GA<u8, U0>, b: GA<u8, U6>) { let _c: GA<u8, U5> = a.concat(b); } }
-mod q17 { use super::*; fn p(a: &GA<GA<u8, U0>, U6>) { let _f: &GA<u8, U1> = a.flatten(); } }
-mod q18 { use super::*; fn p(a: &GA<u8, U0>) { let (_h, _t): (&GA<u8, U0>, &GA<u8, U1>) = Split::<u8, U0>::split(a); } }
-mod q19 { use super::*; fn p(a: &GA<u8, U0>) { let (_h, _t): (&GA<u8, U2>, &GA<u8, U0>) = Split::<u8, U2>::split(a); } }
-mod q20 { use super::*; fn p(a: &GA<u8, U0>) { let (_h, _t): (&GA<u8, U3>, &GA<u8, U1>) = Split::<u8, U3>::split(a); } }
-mod q21 { use super::*; fn p(a: &GA<u8, U0>) { let (_h, _t): (&GA<u8, U5>, &GA<u8, U0>) = Split::<u8, U5>::split(a); } }
-mod q22 { use super::*; fn p(a: &GA<u8, U0>) { let (_h, _t): (&GA<u8, U6>, &GA<u8, U1>) = Split::<u8, U6>::split(a); } }
-mod q23 { use super::*; fn p(a: GA<u8, U0>) { let _c: GA<u8, U0> = a.prepend(1u8); } }
-mod q24 { use super::*; fn p(a: &GA<u8, U0>) { let _m: GA<u16, U0> = a.map(|x| *x as u16); } }
-mod q25 { use super::*; fn p(a: GA<u8, U0>) { let _x: [u8; 0] = a.into_array(); } }
-mod q26 { use super::*; fn p(a: &mut GA<u8, U0>) { let _r: &mut [u8; 0] = a.as_mut(); } }
-mod q27 { use super::*; fn p(x: &[GA<u8, U0>]) { let _g = GA::<u8, U0>::into_chunks::<0>(x); } }
-mod q28 { use super::*; fn p(a: GA<u8, U0>) { let (_x, _c): (u8, GA<u8, U1>) = a.pop_front(); } }
-mod q29 { use super::*; fn p(a: GA<u8, U0>, b: GA<u8, U0>) { let _z: GA<u16, U1> = a.zip(b, |x, y| x as u16 + y as u16); } }
-mod q30 { use super::*; fn p() { let _g = GA::<u8, U0>::from_array([0u8; 1]); } }
-mod q31 { use super::*; fn p(x: &mut [u8; 1]) { let _g: &mut GA<u8, U0> = x.into(); } }
-mod q32 { use super::*; fn p(x: &mut [GA<u8, U0>]) { let _g = GA::<u8, U0>::into_chunks_mut::<1>(x); } }
-mod q33 { use super::*; fn p(a: GA<u8, U0>) { let (_x, _c): (u8, GA<u8, U2>) = a.swap_remove(0); } }
-mod q34 { use super::*; fn p() { let _a: GA<u8, U2> = arr![7u8; 0]; } }
-mod q35 { use super::*; fn p() { let _g: GA<u8, U0> = [0u8; 2].into(); } }
-mod q36 { use super::*; fn p(x: &mut [[u8; 2]]) { let _g: &mut [GA<u8, U0>] = GA::from_chunks_mut(x); } }
-mod q37 { use super::*; fn p(a: GA<u8, U0>) { let _c: GA<u8, U3> = a.prepend(1u8); } }
-mod q38 { use super::*; fn p(a: &GA<u8, U0>) { let _m: GA<u16, U3> = a.map(|x| *x as u16); } }
-mod q39 { use super::*; fn p(a: GA<u8, U0>) { let _x: [u8; 3] = a.into_array(); } }
-mod q40 { use super::*; fn p(a: &mut GA<u8, U0>) { let _r: &mut [u8; 3] = a.as_mut(); } }
-mod q41 { use super::*; fn p(x: &[GA<u8, U0>]) { let _g = GA::<u8, U0>::into_chunks::<3>(x); } }
-mod q42 { use super::*; fn p(a: GA<u8, U0>) { let (_x, _c): (u8, GA<u8, U4>) = a.pop_front(); } }
-mod q43 { use super::*; fn p(a: GA<u8, U0>, b: GA<u8, U0>) { let _z: GA<u16, U4> = a.zip(b, |x, y| x as u16 + y as u16); } }
-mod q44 { use super::*; fn p() { let _g = GA::<u8, U0>::from_array([0u8; 4]); } }
-mod q45 { use super::*; fn p(x: &mut [u8; 4]) { let _g: &mut GA<u8, U0> = x.into(); } }
-mod q46 { use super::*; fn p(x: &mut [GA<u8, U0>]) { let _g = GA::<u8, U0>::into_chunks_mut::<4>(x); } }
-mod q47 { use super::*; fn p(a: GA<u8, U0>) { let (_x, _c): (u8, GA<u8, U5>) = a.swap_remove(0); } }
-mod q48 { use super::*; fn p() { let _a: GA<u8, U5> = arr![7u8; 0]; } }
-mod q49 { use super::*; fn p() { let _g: GA<u8, U0> = [0u8; 5].into(); } }
-mod q50 { use super::*; fn p(x: &mut [[u8; 5]]) { let _g: &mut [GA<u8, U0>] = GA::from_chunks_mut(x); } }
-mod q51 { use super::*; fn p(a: GA<u8, U0>) { let _c: GA<u8, U6> = a.prepend(1u8); } }
-mod q52 { use super::*; fn p(a: &GA<u8, U0>) { let _m: GA<u16, U6> = a.map(|x| *x as u16); } }
-mod q53 { use super::*; fn p(a: GA<u8, U0>) { let _x: [u8; 6] = a.into_array(); } }
-mod q54 { use super::*; fn p(a: &mut GA<u8, U0>) { let _r: &mut [u8; 6] = a.as_mut(); } }
-mod q55 { use super::*; fn p(x: &[GA<u8, U0>]) { let _g = GA::<u8, U0>::into_chunks::<6>(x); } }
-mod q56 { use super::*; fn p(a: GA<u8, U0>) { let (_x, _c): (u8, GA<u8, U7>) = a.pop_front(); } }
-mod q57 { use super::*; fn p(a: GA<u8, U0>, b: GA<u8, U0>) { let _z: GA<u16, U7> = a.zip(b, |x, y| x as u16 + y as u16); } }
-mod q58 { use super::*; fn p() { let _g = GA::<u8, U0>::from_array([0u8; 7]); } }
-mod q59 { use super::*; fn p(x: &mut [u8; 7]) { let _g: &mut GA<u8, U0> = x.into(); } }
-mod q60 { use super::*; fn p(x: &mut [GA<u8, U0>]) { let _g = GA::<u8, U0>::into_chunks_mut::<7>(x); } }
-mod q61 { use super::*; fn p(a: GA<u8, U0>) { let (_x, _c): (u8, GA<u8, U8>) = a.swap_remove(0); } }
-mod q62 { use super::*; fn p() { let _a: GA<u8, U8> = arr![7u8; 0]; } }
-mod q63 { use super::*; fn p() { let _g: GA<u8, U0> = [0u8; 8].into(); } }
-mod q64 { use super::*; fn p(x: &mut [[u8; 8]]) { let _g: &mut [GA<u8, U0>] = GA::from_chunks_mut(x); } }
-mod q65 { use super::*; fn p(a: GA<u8, U0>) { let _u: GA<GA<u8, U0>, U1> = a.unflatten(); } }
-mod q66 { use super::*; fn p(a: GA<u8, U0>) { let _u: GA<GA<u8, U0>, U7> = a.unflatten(); } }
-mod q67 { use super::*; fn p(a: GA<u8, U0>) { let _u: GA<GA<u8, U1>, U5> = a.unflatten(); } }
-mod q68 { use super::*; fn p(a: GA<u8, U0>) { let _u: GA<GA<u8, U2>, U3> = a.unflatten(); } }
-mod q69 { use super::*; fn p(a: GA<u8, U0>) { let _u: GA<GA<u8, U3>, U1> = a.unflatten(); } }
-mod q70 { use super::*; fn p(a: GA<u8, U0>) { let _u: GA<GA<u8, U3>, U7> = a.unflatten(); } }
-mod q71 { use super::*; fn p(a: GA<u8, U1>, b: GA<u8, U0>) -> core::cmp::Ordering { core::cmp::Ord::cmp(&a, &b) } }
-mod q72 { use super::*; fn p(a: GA<GA<u8, U1>, U0>) { let _f: GA<u8, U1> = a.flatten(); } }
-mod q73 { use super::*; fn p(a: GA<u8, U1>, b: GA<u8, U1>) -> bool { a < b } }
-mod q74 { use super::*; fn p(a: GA<GA<u8, U1>, U1>) { let _f: GA<u8, U0> = a.flatten(); } }
-mod q75 { use super::*; fn p(a: GA<u8, U1>, b: GA<u8, U2>) { let _ = a.zip(b, |x, y| x.wrapping_add(y)); } }
-mod q76 { use super::*; fn p(a: GA<u8, U1>, b: GA<u8, U2>) { let _c: GA<u8, U0> = a.concat(b); } }
-mod q77 { use super::*; fn p(a: GA<GA<u8, U1>, U2>) { let _f: GA<u8, U2> = a.flatten(); } }
-mod q78 { use super::*; fn p(a: GA<u8, U1>, b: &mut GA<u8, U3>) { let _ = a.zip(b, |x, y| x.wrapping_add(*y)); } }
-mod q79 { use super::*; fn p(a: GA<u8, U1>, b: GA<u8, U3>) { let _c: GA<u8, U4> = a.concat(b); } }
-mod q80 { use super::*; fn p(a: GA<GA<u8, U1>, U3>) { let _f: GA<u8, U4> = a.flatten(); } }
-mod q81 { use super::*; fn p(a: GA<u8, U1>, b: GA<u8, U4>) -> bool { a < b } }
-mod q82 { use super::*; fn p(a: GA<GA<u8, U1>, U4>) { let _f: GA<u8, U3> = a.flatten(); } }
-mod q83 { use super::*; fn p(a: GA<u8, U1>, b: GA<u8, U5>) { let _ = a.zip(b, |x, y| x.wrapping_add(y)); } }
-mod q84 { use super::*; fn p(a: GA<u8, U1>, b: GA<u8, U5>) { let _c: GA<u8, U0> = a.concat(b); } }
-mod q85 { use super::*; fn p(a: GA<GA<u8, U1>, U5>) { let _f: GA<u8, U5> = a.flatten(); } }
-mod q86 { use super::*; fn p(a: GA<u8, U1>, b: &mut GA<u8, U6>) { let _ = a.zip(b, |x, y| x.wrapping_add(*y)); } }
-mod q87 { use super::*; fn p(a: GA<u8, U1>, b: GA<u8, U6>) { let _c: GA<u8, U7> = a.concat(b); } }
-mod q88 { use super::*; fn p(a: GA<GA<u8, U1>, U6>) { let _f: GA<u8, U7> = a.flatten(); } }
-mod q89 { use super::*; fn p(a: GA<u8, U1>) { let (_h, _t): (GA<u8, U0>, GA<u8, U2>) = Split::<u8, U0>::split(a); } }
-mod q90 { use super::*; fn p(a: GA<u8, U1>) { let (_h, _t): (GA<u8, U2>, GA<u8, U0>) = Split::<u8, U2>::split(a); } }
-mod q91 { use super::*; fn p(a: GA<u8, U1>) { let (_h, _t): (GA<u8, U3>, GA<u8, U1>) = Split::<u8, U3>::split(a); } }
-mod q92 { use super::*; fn p(a: GA<u8, U1>) { let (_h, _t): (GA<u8, U5>, GA<u8, U0>) = Split::<u8, U5>::split(a); } }
-mod q93 { use super::*; fn p(a: GA<u8, U1>) { let (_h, _t): (GA<u8, U6>, GA<u8, U1>) = Split::<u8, U6>::split(a); } }
-mod q94 { use super::*; fn p(a: GA<u8, U1>) { let _c: GA<u8, U0> = a.append(1u8); } }
-mod q95 { use super::*; fn p(a: GA<u8, U1>) { let _m: GA<u16, U0> = a.map(|x| x as u16); } }
-mod q96 { use super::*; fn p() { let _a: GA<u8, U0> = arr![1u8]; } }
-mod q97 { use super::*; fn p(a: &GA<u8, U1>) { let _r: &[u8; 0] = a.as_ref(); } }
-mod q98 { use super::*; fn p(x: &[GA<u8, U1>]) { let _g: &[[u8; 0]] = GA::into_chunks(x); } }
-mod q99 { use super::*; fn p(a: GA<u8, U1>) { let (_c, _x): (GA<u8, U1>, u8) = a.pop_back(); } }
-mod q100 { use super::*; fn p() { let _g: GA<u8, U1> = GA::<u8, U1>::generate(|i| i as u8); } }
-mod q101 { use super::*; fn p(a: GA<u8, U1>) { let _x = a.into_array::<1>(); } }
-mod q102 { use super::*; fn p(x: &[u8; 1]) { let _g: &GA<u8, U1> = x.into(); } }
-mod q103 { use super::*; fn p(x: &mut [GA<u8, U1>]) { let _g: &mut [[u8; 1]] = GA::into_chunks_mut(x); } }
-mod q104 { use super::*; fn p(a: GA<u8, U1>) { let (_x, _c): (u8, GA<u8, U2>) = a.remove(0); } }
-mod q105 { use super::*; fn p() { let _a: GA<u8, U2> = arr![7u8; U1]; } }
-mod q106 { use super::*; fn p(a: GA<u8, U1>) { let _x: [u8; 2] = a.into(); } }
-mod q107 { use super::*; fn p(x: &[[u8; 2]]) { let _g: &[GA<u8, U1>] = GA::from_chunks(x); } }
-mod q108 { use super::*; fn p(a: GA<u8, U1>) { let _c: GA<u8, U3> = a.append(1u8); } }
-mod q109 { use super::*; fn p(a: GA<u8, U1>) { let _m: GA<u16, U3> = a.map(|x| x as u16); } }
-mod q110 { use super::*; fn p() { let _a: GA<u8, U3> = arr![1u8]; } }
-mod q111 { use super::*; fn p(a: &GA<u8, U1>) { let _r: &[u8; 3] = a.as_ref(); } }
-mod q112 { use super::*; fn p(x: &[GA<u8, U1>]) { let _g: &[[u8; 3]] = GA::into_chunks(x); } }
-mod q113 { use super::*; fn p(a: GA<u8, U1>) { let (_c, _x): (GA<u8, U4>, u8) = a.pop_back(); } }
-mod q114 { use super::*; fn p() { let _g: GA<u8, U4> = GA::<u8, U1>::generate(|i| i as u8); } }
-mod q115 { use super::*; fn p(a: GA<u8, U1>) { let _x = a.into_array::<4>(); } }
-mod q116 { use super::*; fn p(x: &[u8; 4]) { let _g: &GA<u8, U1> = x.into(); } }
-mod q117 { use super::*; fn p(x: &mut [GA<u8, U1>]) { let _g: &mut [[u8; 4]] = GA::into_chunks_mut(x); } }
-mod q118 { use super::*; fn p(a: GA<u8, U1>) { let (_x, _c): (u8, GA<u8, U5>) = a.remove(0); } }
-mod q119 { use super::*; fn p() { let _a: GA<u8, U5> = arr![7u8; U1]; } }
-mod q120 { use super::*; fn p(a: GA<u8, U1>) { let _x: [u8; 5] = a.into(); } }
-mod q121 { use super::*; fn p(x: &[[u8; 5]]) { let _g: &[GA<u8, U1>] = GA::from_chunks(x); } }
-mod q122 { use super::*; fn p(a: GA<u8, U1>) { let _c: GA<u8, U6> = a.append(1u8); } }
-mod q123 { use super::*; fn p(a: GA<u8, U1>) { let _m: GA<u16, U6> = a.map(|x| x as u16); } }
-mod q124 { use super::*; fn p() { let _a: GA<u8, U6> = arr![1u8]; } }
-mod q125 { use super::*; fn p(a: &GA<u8, U1>) { let _r: &[u8; 6] = a.as_ref(); } }
-mod q126 { use super::*; fn p(x: &[GA<u8, U1>]) { let _g: &[[u8; 6]] = GA::into_chunks(x); } }
-mod q127 { use super::*; fn p(a: GA<u8, U1>) { let (_c, _x): (GA<u8, U7>, u8) = a.pop_back(); } }
-mod q128 { use super::*; fn p() { let _g: GA<u8, U7> = GA::<u8, U1>::generate(|i| i as u8); } }
-mod q129 { use super::*; fn p(a: GA<u8, U1>) { let _x = a.into_array::<7>(); } }
-mod q130 { use super::*; fn p(x: &[u8; 7]) { let _g: &GA<u8, U1> = x.into(); } }
-mod q131 { use super::*; fn p(x: &mut [GA<u8, U1>]) { let _g: &mut [[u8; 7]] = GA::into_chunks_mut(x); } }
-mod q132 { use super::*; fn p(a: GA<u8, U1>) { let (_x, _c): (u8, GA<u8, U8>) = a.remove(0); } }
-mod q133 { use super::*; fn p() { let _a: GA<u8, U8> = arr![7u8; U1]; } }
-mod q134 { use super::*; fn p(a: GA<u8, U1>) { let _x: [u8; 8] = a.into(); } }
-mod q135 { use super::*; fn p(x: &[[u8; 8]]) { let _g: &[GA<u8, U1>] = GA::from_chunks(x); } }
-mod q136 { use super::*; fn p(a: GA<u8, U1>) { let _u: GA<GA<u8, U0>, U0> = a.unflatten(); } }
-mod q137 { use super::*; fn p(a: GA<u8, U1>) { let _u: GA<GA<u8, U0>, U6> = a.unflatten(); } }
-mod q138 { use super::*; fn p(a: GA<u8, U1>) { let _u: GA<GA<u8, U1>, U4> = a.unflatten(); } }
-mod q139 { use super::*; fn p(a: GA<u8, U1>) { let _u: GA<GA<u8, U2>, U2> = a.unflatten(); } }
-mod q140 { use super::*; fn p(a: GA<u8, U1>) { let _u: GA<GA<u8, U3>, U0> = a.unflatten(); } }
-mod q141 { use super::*; fn p(a: GA<u8, U1>) { let _u: GA<GA<u8, U3>, U6> = a.unflatten(); } }
-mod q142 { use super::*; fn p(a: GA<u8, U2>, b: GA<u8, U0>) -> bool { a < b } }
-mod q143 { use super::*; fn p(a: GA<GA<u8, U2>, U0>) { let _f: GA<u8, U0> = a.flatten(); } }
-mod q144 { use super::*; fn p(a: GA<u8, U2>, b: GA<u8, U1>) { let _ = a.zip(b, |x, y| x.wrapping_add(y)); } }
-mod q145 { use super::*; fn p(a: GA<u8, U2>, b: GA<u8, U1>) { let _c: GA<u8, U0> = a.concat(b); } }
-mod q146 { use super::*; fn p(a: GA<GA<u8, U2>, U1>) { let _f: GA<u8, U2> = a.flatten(); } }
-mod q147 { use super::*; fn p(a: GA<u8, U2>, b: &mut GA<u8, U2>) { let _ = a.zip(b, |x, y| x.wrapping_add(*y)); } }
-mod q148 { use super::*; fn p(a: GA<u8, U2>, b: GA<u8, U2>) { let _c: GA<u8, U4> = a.concat(b); } }
-mod q149 { use super::*; fn p(a: GA<GA<u8, U2>, U2>) { let _f: GA<u8, U5> = a.flatten(); } }
-mod q150 { use super::*; fn p(a: GA<u8, U2>, b: GA<u8, U3>) -> bool { a < b } }
-mod q151 { use super::*; fn p(a: GA<GA<u8, U2>, U3>) { let _f: GA<u8, U5> = a.flatten(); } }
-mod q152 { use super::*; fn p(a: GA<u8, U2>, b: GA<u8, U4>) { let _ = a.zip(b, |x, y| x.wrapping_add(y)); } }
-mod q153 { use super::*; fn p(a: GA<u8, U2>, b: GA<u8, U4>) { let _c: GA<u8, U0> = a.concat(b); } }
-mod q154 { use super::*; fn p(a: GA<GA<u8, U2>, U4>) { let _f: GA<u8, U7> = a.flatten(); } }
-mod q155 { use super::*; fn p(a: GA<u8, U2>, b: GA<u8, U5>) { let _ = a.zip(b, |x, y| x.wrapping_add(y)); } }
-mod q156 { use super::*; fn p(a: GA<u8, U2>, b: GA<u8, U5>) { let _c: GA<u8, U0> = a.concat(b); } }
-mod q157 { use super::*; fn p(a: GA<GA<u8, U2>, U5>) { let _f: GA<u8, U9> = a.flatten(); } }
-mod q158 { use super::*; fn p(a: GA<u8, U2>, b: GA<u8, U6>) { let _ = a.zip(b, |x, y| x.wrapping_add(y)); } }
-mod q159 { use super::*; fn p(a: GA<u8, U2>, b: GA<u8, U6>) { let _c: GA<u8, U0> = a.concat(b); } }
-mod q160 { use super::*; fn p(a: GA<GA<u8, U2>, U6>) { let _f: GA<u8, U11> = a.flatten(); } }
-mod q161 { use super::*; fn p(a: GA<u8, U2>) { let (_h, _t): (GA<u8, U0>, GA<u8, U0>) = Split::<u8, U0>::split(a); } }
-mod q162 { use super::*; fn p(a: GA<u8, U2>) { let (_h, _t): (GA<u8, U1>, GA<u8, U0>) = Split::<u8, U1>::split(a); } }
-mod q163 { use super::*; fn p(a: GA<u8, U2>) { let (_h, _t): (GA<u8, U2>, GA<u8, U0>) = Split::<u8, U2>::split(a); } }
-mod q164 { use super::*; fn p(a: GA<u8, U2>) { let (_h, _t): (GA<u8, U3>, GA<u8, U0>) = Split::<u8, U3>::split(a); } }
-mod q165 { use super::*; fn p(a: GA<u8, U2>) { let (_h, _t): (GA<u8, U4>, GA<u8, U0>) = Split::<u8, U4>::split(a); } }
-mod q166 { use super::*; fn p(a: GA<u8, U2>) { let (_h, _t): (GA<u8, U5>, GA<u8, U0>) = Split::<u8, U5>::split(a); } }
-mod q167 { use super::*; fn p(a: GA<u8, U2>) { let (_h, _t): (GA<u8, U6>, GA<u8, U0>) = Split::<u8, U6>::split(a); } }
-mod q168 { use super::*; fn p(a: GA<u8, U2>) { let (_h, _t): (GA<u8, U7>, GA<u8, U0>) = Split::<u8, U7>::split(a); } }
-mod q169 { use super::*; fn p(a: GA<u8, U2>) { let _c: GA<u8, U0> = a.append(1u8); } }
-mod q170 { use super::*; fn p(a: GA<u8, U2>) { let _m: GA<u16, U0> = a.map(|x| x as u16); } }
-mod q171 { use super::*; fn p() { let _a: GA<u8, U0> = arr![1u8, 1u8]; } }
-mod q172 { use super::*; fn p(a: &GA<u8, U2>) { let _r: &[u8; 0] = a.as_ref(); } }
-mod q173 { use super::*; fn p(x: &[GA<u8, U2>]) { let _g: &[[u8; 0]] = GA::into_chunks(x); } }
-mod q174 { use super::*; fn p(a: GA<u8, U2>) { let (_c, _x): (GA<u8, U1>, u8) = a.pop_back(); } }
-mod q175 { use super::*; fn p() { let _g: GA<u8, U1> = GA::<u8, U2>::generate(|i| i as u8); } }
-mod q176 { use super::*; fn p(a: GA<u8, U2>) { let _x = a.into_array::<1>(); } }
-mod q177 { use super::*; fn p(x: &[u8; 1]) { let _g: &GA<u8, U2> = x.into(); } }
-mod q178 { use super::*; fn p(x: &mut [GA<u8, U2>]) { let _g: &mut [[u8; 1]] = GA::into_chunks_mut(x); } }
-mod q179 { use super::*; fn p(a: GA<u8, U2>) { let (_x, _c): (u8, GA<u8, U2>) = a.remove(0); } }
-mod q180 { use super::*; fn p() { let _a: GA<u8, U2> = arr![7u8; U2]; } }
-mod q181 { use super::*; fn p(a: GA<u8, U2>) { let _x: [u8; 2] = a.into(); } }
-mod q182 { use super::*; fn p(x: &[[u8; 2]]) { let _g: &[GA<u8, U2>] = GA::from_chunks(x); } }
-mod q183 { use super::*; fn p(a: GA<u8, U2>) { let _c: GA<u8, U3> = a.append(1u8); } }
-mod q184 { use super::*; fn p(a: GA<u8, U2>) { let _m: GA<u16, U3> = a.map(|x| x as u16); } }
-mod q185 { use super::*; fn p() { let _a: GA<u8, U3> = arr![1u8, 1u8]; } }
-mod q186 { use super::*; fn p(a: &GA<u8, U2>) { let _r: &[u8; 3] = a.as_ref(); } }
-mod q187 { use super::*; fn p(x: &[GA<u8, U2>]) { let _g: &[[u8; 3]] = GA::into_chunks(x); } }
-mod q188 { use super::*; fn p(a: GA<u8, U2>) { let (_c, _x): (GA<u8, U4>, u8) = a.pop_back(); } }
-mod q189 { use super::*; fn p() { let _g: GA<u8, U4> = GA::<u8, U2>::generate(|i| i as u8); } }
-mod q190 { use super::*; fn p(a: GA<u8, U2>) { let _x = a.into_array::<4>(); } }
-mod q191 { use super::*; fn p(x: &[u8; 4]) { let _g: &GA<u8, U2> = x.into(); } }
-mod q192 { use super::*; fn p(x: &mut [GA<u8, U2>]) { let _g: &mut [[u8; 4]] = GA::into_chunks_mut(x); } }
-mod q193 { use super::*; fn p(a: GA<u8, U2>) { let (_x, _c): (u8, GA<u8, U5>) = a.remove(0); } }
-mod q194 { use super::*; fn p() { let _a: GA<u8, U5> = arr![7u8; U2]; } }
-mod q195 { use super::*; fn p(a: GA<u8, U2>) { let _x: [u8; 5] = a.into(); } }
-mod q196 { use super::*; fn p(x: &[[u8; 5]]) { let _g: &[GA<u8, U2>] = GA::from_chunks(x); } }
-mod q197 { use super::*; fn p(a: GA<u8, U2>) { let _c: GA<u8, U6> = a.append(1u8); } }
-mod q198 { use super::*; fn p(a: GA<u8, U2>) { let _m: GA<u16, U6> = a.map(|x| x as u16); } }
-mod q199 { use super::*; fn p() { let _a: GA<u8, U6> = arr![1u8, 1u8]; } }
-mod q200 { use super::*; fn p(a: &GA<u8, U2>) { let _r: &[u8; 6] = a.as_ref(); } }
-mod q201 { use super::*; fn p(x: &[GA<u8, U2>]) { let _g: &[[u8; 6]] = GA::into_chunks(x); } }
-mod q202 { use super::*; fn p(a: GA<u8, U2>) { let (_c, _x): (GA<u8, U7>, u8) = a.pop_back(); } }
-mod q203 { use super::*; fn p() { let _g: GA<u8, U7> = GA::<u8, U2>::generate(|i| i as u8); } }
-mod q204 { use super::*; fn p(a: GA<u8, U2>) { let _x = a.into_array::<7>(); } }
-mod q205 { use super::*; fn p(x: &[u8; 7]) { let _g: &GA<u8, U2> = x.into(); } }
-mod q206 { use super::*; fn p(x: &mut [GA<u8, U2>]) { let _g: &mut [[u8; 7]] = GA::into_chunks_mut(x); } }
-mod q207 { use super::*; fn p(a: GA<u8, U2>) { let (_x, _c): (u8, GA<u8, U8>) = a.remove(0); } }
-mod q208 { use super::*; fn p() { let _a: GA<u8, U8> = arr![7u8; U2]; } }
-mod q209 { use super::*; fn p(a: GA<u8, U2>) { let _x: [u8; 8] = a.into(); } }
-mod q210 { use super::*; fn p(x: &[[u8; 8]]) { let _g: &[GA<u8, U2>] = GA::from_chunks(x); } }
-mod q211 { use super::*; fn p(a: GA<u8, U2>) { let _u: GA<GA<u8, U0>, U0> = a.unflatten(); } }
-mod q212 { use super::*; fn p(a: GA<u8, U2>) { let _u: GA<GA<u8, U0>, U6> = a.unflatten(); } }
-mod q213 { use super::*; fn p(a: GA<u8, U2>) { let _u: GA<GA<u8, U1>, U4> = a.unflatten(); } }
-mod q214 { use super::*; fn p(a: GA<u8, U2>) { let _u: GA<GA<u8, U2>, U2> = a.unflatten(); } }
-mod q215 { use super::*; fn p(a: GA<u8, U2>) { let _u: GA<GA<u8, U3>, U0> = a.unflatten(); } }
-mod q216 { use super::*; fn p(a: GA<u8, U2>) { let _u: GA<GA<u8, U3>, U6> = a.unflatten(); } }
-mod q217 { use super::*; fn p(a: GA<u8, U3>, b: GA<u8, U0>) -> bool { a < b } }
-mod q218 { use super::*; fn p(a: GA<GA<u8, U3>, U0>) { let _f: GA<u8, U0> = a.flatten(); } }
-mod q219 { use super::*; fn p(a: GA<u8, U3>, b: GA<u8, U1>) { let _ = a.zip(b, |x, y| x.wrapping_add(y)); } }
-mod q220 { use super::*; fn p(a: GA<u8, U3>, b: GA<u8, U1>) { let _c: GA<u8, U0> = a.concat(b); } }
-mod q221 { use super::*; fn p(a: GA<GA<u8, U3>, U1>) { let _f: GA<u8, U3> = a.flatten(); } }
-mod q222 { use super::*; fn p(a: GA<u8, U3>, b: &mut GA<u8, U2>) { let _ = a.zip(b, |x, y| x.wrapping_add(*y)); } }
-mod q223 { use super::*; fn p(a: GA<u8, U3>, b: GA<u8, U2>) { let _c: GA<u8, U5> = a.concat(b); } }
-mod q224 { use super::*; fn p(a: GA<GA<u8, U3>, U2>) { let _f: GA<u8, U7> = a.flatten(); } }
-mod q225 { use super::*; fn p(a: GA<u8, U3>, b: GA<u8, U3>) -> bool { a < b } }
-mod q226 { use super::*; fn p(a: GA<GA<u8, U3>, U3>) { let _f: GA<u8, U6> = a.flatten(); } }
-mod q227 { use super::*; fn p(a: GA<GA<u8, U3>, U3>) { let _f: GA<u8, U10> = a.flatten(); } }
-mod q228 { use super::*; fn p(a: GA<u8, U3>, b: GA<u8, U4>) -> bool { a < b } }
-mod q229 { use super::*; fn p(a: GA<GA<u8, U3>, U4>) { let _f: GA<u8, U7> = a.flatten(); } }
-mod q230 { use super::*; fn p(a: GA<GA<u8, U3>, U4>) { let _f: GA<u8, U13> = a.flatten(); } }
-mod q231 { use super::*; fn p(a: GA<u8, U3>, b: GA<u8, U5>) -> bool { a < b } }
-mod q232 { use super::*; fn p(a: GA<GA<u8, U3>, U5>) { let _f: GA<u8, U8> = a.flatten(); } }
-mod q233 { use super::*; fn p(a: GA<GA<u8, U3>, U5>) { let _f: GA<u8, U16> = a.flatten(); } }
-mod q234 { use super::*; fn p(a: GA<u8, U3>, b: GA<u8, U6>) -> bool { a < b } }
-mod q235 { use super::*; fn p(a: GA<GA<u8, U3>, U6>) { let _f: GA<u8, U9> = a.flatten(); } }
-mod q236 { use super::*; fn p(a: GA<GA<u8, U3>, U6>) { let _f: GA<u8, U19> = a.flatten(); } }
-mod q237 { use super::*; fn p(a: GA<u8, U3>) { let (_h, _t): (GA<u8, U0>, GA<u8, U4>) = Split::<u8, U0>::split(a); } }
-mod q238 { use super::*; fn p(a: GA<u8, U3>) { let (_h, _t): (GA<u8, U1>, GA<u8, U3>) = Split::<u8, U1>::split(a); } }
-mod q239 { use super::*; fn p(a: GA<u8, U3>) { let (_h, _t): (GA<u8, U2>, GA<u8, U2>) = Split::<u8, U2>::split(a); } }
-mod q240 { use super::*; fn p(a: GA<u8, U3>) { let (_h, _t): (GA<u8, U3>, GA<u8, U1>) = Split::<u8, U3>::split(a); } }
-mod q241 { use super::*; fn p(a: GA<u8, U3>) { let (_h, _t): (GA<u8, U4>, GA<u8, U1>) = Split::<u8, U4>::split(a); } }
-mod q242 { use super::*; fn p(a: GA<u8, U3>) { let (_h, _t): (GA<u8, U5>, GA<u8, U1>) = Split::<u8, U5>::split(a); } }
-mod q243 { use super::*; fn p(a: GA<u8, U3>) { let (_h, _t): (GA<u8, U6>, GA<u8, U1>) = Split::<u8, U6>::split(a); } }
-mod q244 { use super::*; fn p(a: GA<u8, U3>) { let (_h, _t): (GA<u8, U7>, GA<u8, U1>) = Split::<u8, U7>::split(a); } }
-mod q245 { use super::*; fn p(a: GA<u8, U3>) { let (_c, _x): (GA<u8, U0>, u8) = a.pop_back(); } }
-mod q246 { use super::*; fn p() { let _g: GA<u8, U0> = GA::<u8, U3>::generate(|i| i as u8); } }
-mod q247 { use super::*; fn p(a: GA<u8, U3>) { let _x = a.into_array::<0>(); } }
-mod q248 { use super::*; fn p(x: &[u8; 0]) { let _g: &GA<u8, U3> = x.into(); } }
-mod q249 { use super::*; fn p(x: &mut [GA<u8, U3>]) { let _g: &mut [[u8; 0]] = GA::into_chunks_mut(x); } }
-mod q250 { use super::*; fn p(a: GA<u8, U3>) { let (_x, _c): (u8, GA<u8, U1>) = a.remove(0); } }
-mod q251 { use super::*; fn p() { let _a: GA<u8, U1> = arr![7u8; U3]; } }
-mod q252 { use super::*; fn p(a: GA<u8, U3>) { let _x: [u8; 1] = a.into(); } }
-mod q253 { use super::*; fn p(x: &[[u8; 1]]) { let _g: &[GA<u8, U3>] = GA::from_chunks(x); } }
-mod q254 { use super::*; fn p(a: GA<u8, U3>) { let _c: GA<u8, U2> = a.append(1u8); } }
-mod q255 { use super::*; fn p(a: GA<u8, U3>) { let _m: GA<u16, U2> = a.map(|x| x as u16); } }
-mod q256 { use super::*; fn p() { let _a: GA<u8, U2> = arr![1u8, 1u8, 1u8]; } }
-mod q257 { use super::*; fn p(a: &GA<u8, U3>) { let _r: &[u8; 2] = a.as_ref(); } }
-mod q258 { use super::*; fn p(x: &[GA<u8, U3>]) { let _g: &[[u8; 2]] = GA::into_chunks(x); } }
-mod q259 { use super::*; fn p(a: GA<u8, U3>) { let (_c, _x): (GA<u8, U3>, u8) = a.pop_back(); } }
-mod q260 { use super::*; fn p() { let _g: GA<u8, U3> = GA::<u8, U3>::generate(|i| i as u8); } }
-mod q261 { use super::*; fn p(a: GA<u8, U3>) { let _x = a.into_array::<3>(); } }
-mod q262 { use super::*; fn p(x: &[u8; 3]) { let _g: &GA<u8, U3> = x.into(); } }
-mod q263 { use super::*; fn p(x: &mut [GA<u8, U3>]) { let _g: &mut [[u8; 3]] = GA::into_chunks_mut(x); } }
-mod q264 { use super::*; fn p(a: GA<u8, U3>) { let (_x, _c): (u8, GA<u8, U4>) = a.remove(0); } }
-mod q265 { use super::*; fn p() { let _a: GA<u8, U4> = arr![7u8; U3]; } }
-mod q266 { use super::*; fn p(a: GA<u8, U3>) { let _x: [u8; 4] = a.into(); } }
-mod q267 { use super::*; fn p(x: &[[u8; 4]]) { let _g: &[GA<u8, U3>] = GA::from_chunks(x); } }
-mod q268 { use super::*; fn p(a: GA<u8, U3>) { let _c: GA<u8, U5> = a.append(1u8); } }
-mod q269 { use super::*; fn p(a: GA<u8, U3>) { let _m: GA<u16, U5> = a.map(|x| x as u16); } }
-mod q270 { use super::*; fn p() { let _a: GA<u8, U5> = arr![1u8, 1u8, 1u8]; } }
-mod q271 { use super::*; fn p(a: &GA<u8, U3>) { let _r: &[u8; 5] = a.as_ref(); } }
-mod q272 { use super::*; fn p(x: &[GA<u8, U3>]) { let _g: &[[u8; 5]] = GA::into_chunks(x); } }
-mod q273 { use super::*; fn p(a: GA<u8, U3>) { let (_c, _x): (GA<u8, U6>, u8) = a.pop_back(); } }
-mod q274 { use super::*; fn p() { let _g: GA<u8, U6> = GA::<u8, U3>::generate(|i| i as u8); } }
-mod q275 { use super::*; fn p(a: GA<u8, U3>) { let _x = a.into_array::<6>(); } }
-mod q276 { use super::*; fn p(x: &[u8; 6]) { let _g: &GA<u8, U3> = x.into(); } }
-mod q277 { use super::*; fn p(x: &mut [GA<u8, U3>]) { let _g: &mut [[u8; 6]] = GA::into_chunks_mut(x); } }
-mod q278 { use super::*; fn p(a: GA<u8, U3>) { let (_x, _c): (u8, GA<u8, U7>) = a.remove(0); } }
-mod q279 { use super::*; fn p() { let _a: GA<u8, U7> = arr![7u8; U3]; } }
-mod q280 { use super::*; fn p(a: GA<u8, U3>) { let _x: [u8; 7] = a.into(); } }
-mod q281 { use super::*; fn p(x: &[[u8; 7]]) { let _g: &[GA<u8, U3>] = GA::from_chunks(x); } }
-mod q282 { use super::*; fn p(a: GA<u8, U3>) { let _c: GA<u8, U8> = a.append(1u8); } }
-mod q283 { use super::*; fn p(a: GA<u8, U3>) { let _m: GA<u16, U8> = a.map(|x| x as u16); } }
-mod q284 { use super::*; fn p() { let _a: GA<u8, U8> = arr![1u8, 1u8, 1u8]; } }
-mod q285 { use super::*; fn p(a: &GA<u8, U3>) { let _r: &[u8; 8] = a.as_ref(); } }
-mod q286 { use super::*; fn p(x: &[GA<u8, U3>]) { let _g: &[[u8; 8]] = GA::into_chunks(x); } }
-mod q287 { use super::*; fn p(a: GA<u8, U3>) { let _u: GA<GA<u8, U0>, U2> = a.unflatten(); } }
-mod q288 { use super::*; fn p(a: GA<u8, U3>) { let _u: GA<GA<u8, U1>, U0> = a.unflatten(); } }
-mod q289 { use super::*; fn p(a: GA<u8, U3>) { let _u: GA<GA<u8, U1>, U6> = a.unflatten(); } }
-mod q290 { use super::*; fn p(a: GA<u8, U3>) { let _u: GA<GA<u8, U2>, U4> = a.unflatten(); } }
-mod q291 { use super::*; fn p(a: GA<u8, U3>) { let _u: GA<GA<u8, U3>, U2> = a.unflatten(); } }
-mod q292 { use super::*; fn p(a: GA<u8, U4>, b: GA<u8, U0>) { let _ = a.zip(b, |x, y| x.wrapping_add(y)); } }
-mod q293 { use super::*; fn p(a: GA<u8, U4>, b: GA<u8, U0>) { let _c: GA<u8, U0> = a.concat(b); } }
-mod q294 { use super::*; fn p(a: GA<GA<u8, U4>, U0>) { let _f: GA<u8, U1> = a.flatten(); } }
-mod q295 { use super::*; fn p(a: GA<u8, U4>, b: &mut GA<u8, U1>) { let _ = a.zip(b, |x, y| x.wrapping_add(*y)); } }
-mod q296 { use super::*; fn p(a: GA<u8, U4>, b: GA<u8, U1>) { let _c: GA<u8, U5> = a.concat(b); } }
-mod q297 { use super::*; fn p(a: GA<GA<u8, U4>, U1>) { let _f: GA<u8, U5> = a.flatten(); } }
-mod q298 { use super::*; fn p(a: GA<u8, U4>, b: GA<u8, U2>) -> bool { a < b } }
-mod q299 { use super::*; fn p(a: GA<GA<u8, U4>, U2>) { let _f: GA<u8, U6> = a.flatten(); } }
-mod q300 { use super::*; fn p(a: GA<GA<u8, U4>, U2>) { let _f: GA<u8, U9> = a.flatten(); } }
-mod q301 { use super::*; fn p(a: GA<u8, U4>, b: GA<u8, U3>) -> bool { a < b } }
-mod q302 { use super::*; fn p(a: GA<GA<u8, U4>, U3>) { let _f: GA<u8, U7> = a.flatten(); } }
-mod q303 { use super::*; fn p(a: GA<GA<u8, U4>, U3>) { let _f: GA<u8, U13> = a.flatten(); } }
-mod q304 { use super::*; fn p(a: GA<u8, U4>, b: GA<u8, U4>) -> bool { a < b } }
-mod q305 { use super::*; fn p(a: GA<GA<u8, U4>, U4>) { let _f: GA<u8, U8> = a.flatten(); } }
-mod q306 { use super::*; fn p(a: GA<GA<u8, U4>, U4>) { let _f: GA<u8, U17> = a.flatten(); } }
-mod q307 { use super::*; fn p(a: GA<u8, U4>, b: GA<u8, U5>) -> bool { a < b } }
-mod q308 { use super::*; fn p(a: GA<GA<u8, U4>, U5>) { let _f: GA<u8, U9> = a.flatten(); } }
-mod q309 { use super::*; fn p(a: GA<GA<u8, U4>, U5>) { let _f: GA<u8, U21> = a.flatten(); } }
-mod q310 { use super::*; fn p(a: GA<u8, U4>, b: GA<u8, U6>) -> bool { a < b } }
-mod q311 { use super::*; fn p(a: GA<GA<u8, U4>, U6>) { let _f: GA<u8, U10> = a.flatten(); } }
-mod q312 { use super::*; fn p(a: GA<GA<u8, U4>, U6>) { let _f: GA<u8, U25> = a.flatten(); } }
-mod q313 { use super::*; fn p(a: GA<u8, U4>) { let (_h, _t): (GA<u8, U0>, GA<u8, U5>) = Split::<u8, U0>::split(a); } }
-mod q314 { use super::*; fn p(a: GA<u8, U4>) { let (_h, _t): (GA<u8, U1>, GA<u8, U4>) = Split::<u8, U1>::split(a); } }
-mod q315 { use super::*; fn p(a: GA<u8, U4>) { let (_h, _t): (GA<u8, U2>, GA<u8, U3>) = Split::<u8, U2>::split(a); } }
-mod q316 { use super::*; fn p(a: GA<u8, U4>) { let (_h, _t): (GA<u8, U3>, GA<u8, U1>) = Split::<u8, U3>::split(a); } }
-mod q317 { use super::*; fn p(a: GA<u8, U4>) { let (_h, _t): (GA<u8, U4>, GA<u8, U0>) = Split::<u8, U4>::split(a); } }
-mod q318 { use super::*; fn p(a: GA<u8, U4>) { let (_h, _t): (GA<u8, U5>, GA<u8, U0>) = Split::<u8, U5>::split(a); } }
-mod q319 { use super::*; fn p(a: GA<u8, U4>) { let (_h, _t): (GA<u8, U6>, GA<u8, U0>) = Split::<u8, U6>::split(a); } }
-mod q320 { use super::*; fn p(a: GA<u8, U4>) { let (_h, _t): (GA<u8, U7>, GA<u8, U0>) = Split::<u8, U7>::split(a); } }
-mod q321 { use super::*; fn p(a: GA<u8, U4>) { let _c: GA<u8, U0> = a.append(1u8); } }
-mod q322 { use super::*; fn p(a: GA<u8, U4>) { let _m: GA<u16, U0> = a.map(|x| x as u16); } }
-mod q323 { use super::*; fn p() { let _a: GA<u8, U0> = arr![1u8, 1u8, 1u8, 1u8]; } }
-mod q324 { use super::*; fn p(a: &GA<u8, U4>) { let _r: &[u8; 0] = a.as_ref(); } }
-mod q325 { use super::*; fn p(x: &[GA<u8, U4>]) { let _g: &[[u8; 0]] = GA::into_chunks(x); } }
-mod q326 { use super::*; fn p(a: GA<u8, U4>) { let (_c, _x): (GA<u8, U1>, u8) = a.pop_back(); } }
-mod q327 { use super::*; fn p() { let _g: GA<u8, U1> = GA::<u8, U4>::generate(|i| i as u8); } }
-mod q328 { use super::*; fn p(a: GA<u8, U4>) { let _x = a.into_array::<1>(); } }
-mod q329 { use super::*; fn p(x: &[u8; 1]) { let _g: &GA<u8, U4> = x.into(); } }
-mod q330 { use super::*; fn p(x: &mut [GA<u8, U4>]) { let _g: &mut [[u8; 1]] = GA::into_chunks_mut(x); } }
-mod q331 { use super::*; fn p(a: GA<u8, U4>) { let (_x, _c): (u8, GA<u8, U2>) = a.remove(0); } }
-mod q332 { use super::*; fn p() { let _a: GA<u8, U2> = arr![7u8; U4]; } }
-mod q333 { use super::*; fn p(a: GA<u8, U4>) { let _x: [u8; 2] = a.into(); } }
-mod q334 { use super::*; fn p(x: &[[u8; 2]]) { let _g: &[GA<u8, U4>] = GA::from_chunks(x); } }
-mod q335 { use super::*; fn p(a: GA<u8, U4>) { let _c: GA<u8, U3> = a.append(1u8); } }
-mod q336 { use super::*; fn p(a: GA<u8, U4>) { let _m: GA<u16, U3> = a.map(|x| x as u16); } }
-mod q337 { use super::*; fn p() { let _a: GA<u8, U3> = arr![1u8, 1u8, 1u8, 1u8]; } }
-mod q338 { use super::*; fn p(a: &GA<u8, U4>) { let _r: &[u8; 3] = a.as_ref(); } }
-mod q339 { use super::*; fn p(x: &[GA<u8, U4>]) { let _g: &[[u8; 3]] = GA::into_chunks(x); } }
-mod q340 { use super::*; fn p(a: GA<u8, U4>) { let (_c, _x): (GA<u8, U4>, u8) = a.pop_back(); } }
-mod q341 { use super::*; fn p() { let _g: GA<u8, U4> = GA::<u8, U4>::generate(|i| i as u8); } }
-mod q342 { use super::*; fn p(a: GA<u8, U4>) { let _x = a.into_array::<4>(); } }
-mod q343 { use super::*; fn p(x: &[u8; 4]) { let _g: &GA<u8, U4> = x.into(); } }
-mod q344 { use super::*; fn p(x: &mut [GA<u8, U4>]) { let _g: &mut [[u8; 4]] = GA::into_chunks_mut(x); } }
-mod q345 { use super::*; fn p(a: GA<u8, U4>) { let (_x, _c): (u8, GA<u8, U5>) = a.remove(0); } }
-mod q346 { use super::*; fn p() { let _a: GA<u8, U5> = arr![7u8; U4]; } }
-mod q347 { use super::*; fn p(a: GA<u8, U4>) { let _x: [u8; 5] = a.into(); } }
-mod q348 { use super::*; fn p(x: &[[u8; 5]]) { let _g: &[GA<u8, U4>] = GA::from_chunks(x); } }
-mod q349 { use super::*; fn p(a: GA<u8, U4>) { let _c: GA<u8, U6> = a.append(1u8); } }
-mod q350 { use super::*; fn p(a: GA<u8, U4>) { let _m: GA<u16, U6> = a.map(|x| x as u16); } }
-mod q351 { use super::*; fn p() { let _a: GA<u8, U6> = arr![1u8, 1u8, 1u8, 1u8]; } }
-mod q352 { use super::*; fn p(a: &GA<u8, U4>) { let _r: &[u8; 6] = a.as_ref(); } }
-mod q353 { use super::*; fn p(x: &[GA<u8, U4>]) { let _g: &[[u8; 6]] = GA::into_chunks(x); } }
-mod q354 { use super::*; fn p(a: GA<u8, U4>) { let (_c, _x): (GA<u8, U7>, u8) = a.pop_back(); } }
-mod q355 { use super::*; fn p() { let _g: GA<u8, U7> = GA::<u8, U4>::generate(|i| i as u8); } }
-mod q356 { use super::*; fn p(a: GA<u8, U4>) { let _x = a.into_array::<7>(); } }
-mod q357 { use super::*; fn p(x: &[u8; 7]) { let _g: &GA<u8, U4> = x.into(); } }
-mod q358 { use super::*; fn p(x: &mut [GA<u8, U4>]) { let _g: &mut [[u8; 7]] = GA::into_chunks_mut(x); } }
-mod q359 { use super::*; fn p(a: GA<u8, U4>) { let (_x, _c): (u8, GA<u8, U8>) = a.remove(0); } }
-mod q360 { use super::*; fn p() { let _a: GA<u8, U8> = arr![7u8; U4]; } }
-mod q361 { use super::*; fn p(a: GA<u8, U4>) { let _x: [u8; 8] = a.into(); } }
-mod q362 { use super::*; fn p(x: &[[u8; 8]]) { let _g: &[GA<u8, U4>] = GA::from_chunks(x); } }
-mod q363 { use super::*; fn p(a: GA<u8, U4>) { let _u: GA<GA<u8, U0>, U0> = a.unflatten(); } }
-mod q364 { use super::*; fn p(a: GA<u8, U4>) { let _u: GA<GA<u8, U0>, U6> = a.unflatten(); } }
-mod q365 { use super::*; fn p(a: GA<u8, U4>) { let _u: GA<GA<u8, U1>, U4> = a.unflatten(); } }
-mod q366 { use super::*; fn p(a: GA<u8, U4>) { let _u: GA<GA<u8, U2>, U2> = a.unflatten(); } }
-mod q367 { use super::*; fn p(a: GA<u8, U4>) { let _u: GA<GA<u8, U3>, U0> = a.unflatten(); } }
-mod q368 { use super::*; fn p(a: GA<u8, U4>) { let _u: GA<GA<u8, U3>, U6> = a.unflatten(); } }
-mod q369 { use super::*; fn p(a: GA<u8, U5>, b: GA<u8, U0>) -> bool { a < b } }
-mod q370 { use super::*; fn p(a: GA<GA<u8, U5>, U0>) { let _f: GA<u8, U0> = a.flatten(); } }
-mod q371 { use super::*; fn p(a: GA<u8, U5>, b: GA<u8, U1>) { let _ = a.zip(b, |x, y| x.wrapping_add(y)); } }
-mod q372 { use super::*; fn p(a: GA<u8, U5>, b: GA<u8, U1>) { let _c: GA<u8, U0> = a.concat(b); } }
-mod q373 { use super::*; fn p(a: GA<GA<u8, U5>, U1>) { let _f: GA<u8, U5> = a.flatten(); } }
-mod q374 { use super::*; fn p(a: GA<u8, U5>, b: &mut GA<u8, U2>) { let _ = a.zip(b, |x, y| x.wrapping_add(*y)); } }
-mod q375 { use super::*; fn p(a: GA<u8, U5>, b: GA<u8, U2>) { let _c: GA<u8, U7> = a.concat(b); } }
-mod q376 { use super::*; fn p(a: GA<GA<u8, U5>, U2>) { let _f: GA<u8, U10> = a.flatten(); } }
-mod q377 { use super::*; fn p(a: GA<u8, U5>, b: &mut GA<u8, U3>) { let _ = a.zip(b, |x, y| x.wrapping_add(*y)); } }
-mod q378 { use super::*; fn p(a: GA<u8, U5>, b: GA<u8, U3>) { let _c: GA<u8, U8> = a.concat(b); } }
-mod q379 { use super::*; fn p(a: GA<GA<u8, U5>, U3>) { let _f: GA<u8, U15> = a.flatten(); } }
-mod q380 { use super::*; fn p(a: GA<u8, U5>, b: &mut GA<u8, U4>) { let _ = a.zip(b, |x, y| x.wrapping_add(*y)); } }
-mod q381 { use super::*; fn p(a: GA<u8, U5>, b: GA<u8, U4>) { let _c: GA<u8, U9> = a.concat(b); } }
-mod q382 { use super::*; fn p(a: GA<GA<u8, U5>, U4>) { let _f: GA<u8, U20> = a.flatten(); } }
-mod q383 { use super::*; fn p(a: GA<u8, U5>, b: &mut GA<u8, U5>) { let _ = a.zip(b, |x, y| x.wrapping_add(*y)); } }
-mod q384 { use super::*; fn p(a: GA<u8, U5>, b: GA<u8, U5>) { let _c: GA<u8, U10> = a.concat(b); } }
-mod q385 { use super::*; fn p(a: GA<GA<u8, U5>, U5>) { let _f: GA<u8, U25> = a.flatten(); } }
-mod q386 { use super::*; fn p(a: GA<u8, U5>, b: &mut GA<u8, U6>) { let _ = a.zip(b, |x, y| x.wrapping_add(*y)); } }
-mod q387 { use super::*; fn p(a: GA<u8, U5>, b: GA<u8, U6>) { let _c: GA<u8, U11> = a.concat(b); } }
-mod q388 { use super::*; fn p(a: GA<GA<u8, U5>, U6>) { let _f: GA<u8, U30> = a.flatten(); } }
-mod q389 { use super::*; fn p(a: GA<u8, U5>) { let (_h, _t): (GA<u8, U0>, GA<u8, U5>) = Split::<u8, U0>::split(a); } }
-mod q390 { use super::*; fn p(a: GA<u8, U5>) { let (_h, _t): (GA<u8, U1>, GA<u8, U4>) = Split::<u8, U1>::split(a); } }
-mod q391 { use super::*; fn p(a: GA<u8, U5>) { let (_h, _t): (GA<u8, U2>, GA<u8, U3>) = Split::<u8, U2>::split(a); } }
-mod q392 { use super::*; fn p(a: GA<u8, U5>) { let (_h, _t): (GA<u8, U3>, GA<u8, U0>) = Split::<u8, U3>::split(a); } }
-mod q393 { use super::*; fn p(a: GA<u8, U5>) { let (_h, _t): (GA<u8, U3>, GA<u8, U5>) = Split::<u8, U3>::split(a); } }
-mod q394 { use super::*; fn p(a: GA<u8, U5>) { let (_h, _t): (GA<u8, U4>, GA<u8, U2>) = Split::<u8, U4>::split(a); } }
-mod q395 { use super::*; fn p(a: GA<u8, U5>) { let (_h, _t): (GA<u8, U5>, GA<u8, U1>) = Split::<u8, U5>::split(a); } }
-mod q396 { use super::*; fn p(a: GA<u8, U5>) { let (_h, _t): (GA<u8, U6>, GA<u8, U1>) = Split::<u8, U6>::split(a); } }
-mod q397 { use super::*; fn p(a: GA<u8, U5>) { let (_h, _t): (GA<u8, U7>, GA<u8, U1>) = Split::<u8, U7>::split(a); } }
-mod q398 { use super::*; fn p(a: GA<u8, U5>) { let (_c, _x): (GA<u8, U0>, u8) = a.pop_back(); } }
-mod q399 { use super::*; fn p() { let _g: GA<u8, U0> = GA::<u8, U5>::generate(|i| i as u8); } }
-mod q400 { use super::*; fn p(a: GA<u8, U5>) { let _x = a.into_array::<0>(); } }
-mod q401 { use super::*; fn p(x: &[u8; 0]) { let _g: &GA<u8, U5> = x.into(); } }
-mod q402 { use super::*; fn p(x: &mut [GA<u8, U5>]) { let _g: &mut [[u8; 0]] = GA::into_chunks_mut(x); } }
-mod q403 { use super::*; fn p(a: GA<u8, U5>) { let (_x, _c): (u8, GA<u8, U1>) = a.remove(0); } }
-mod q404 { use super::*; fn p() { let _a: GA<u8, U1> = arr![7u8; U5]; } }
-mod q405 { use super::*; fn p(a: GA<u8, U5>) { let _x: [u8; 1] = a.into(); } }
-mod q406 { use super::*; fn p(x: &[[u8; 1]]) { let _g: &[GA<u8, U5>] = GA::from_chunks(x); } }
-mod q407 { use super::*; fn p(a: GA<u8, U5>) { let _c: GA<u8, U2> = a.append(1u8); } }
-mod q408 { use super::*; fn p(a: GA<u8, U5>) { let _m: GA<u16, U2> = a.map(|x| x as u16); } }
-mod q409 { use super::*; fn p() { let _a: GA<u8, U2> = arr![1u8, 1u8, 1u8, 1u8, 1u8]; } }
-mod q410 { use super::*; fn p(a: &GA<u8, U5>) { let _r: &[u8; 2] = a.as_ref(); } }
-mod q411 { use super::*; fn p(x: &[GA<u8, U5>]) { let _g: &[[u8; 2]] = GA::into_chunks(x); } }
-mod q412 { use super::*; fn p(a: GA<u8, U5>) { let (_c, _x): (GA<u8, U3>, u8) = a.pop_back(); } }
-mod q413 { use super::*; fn p() { let _g: GA<u8, U3> = GA::<u8, U5>::generate(|i| i as u8); } }
-mod q414 { use super::*; fn p(a: GA<u8, U5>) { let _x = a.into_array::<3>(); } }
-mod q415 { use super::*; fn p(x: &[u8; 3]) { let _g: &GA<u8, U5> = x.into(); } }
-mod q416 { use super::*; fn p(x: &mut [GA<u8, U5>]) { let _g: &mut [[u8; 3]] = GA::into_chunks_mut(x); } }
-mod q417 { use super::*; fn p(a: GA<u8, U5>) { let (_x, _c): (u8, GA<u8, U4>) = a.remove(0); } }
-mod q418 { use super::*; fn p() { let _a: GA<u8, U4> = arr![7u8; U5]; } }
-mod q419 { use super::*; fn p(a: GA<u8, U5>) { let _x: [u8; 4] = a.into(); } }
-mod q420 { use super::*; fn p(x: &[[u8; 4]]) { let _g: &[GA<u8, U5>] = GA::from_chunks(x); } }
-mod q421 { use super::*; fn p(a: GA<u8, U5>) { let _c: GA<u8, U5> = a.append(1u8); } }
-mod q422 { use super::*; fn p(a: GA<u8, U5>) { let _m: GA<u16, U5> = a.map(|x| x as u16); } }
-mod q423 { use super::*; fn p() { let _a: GA<u8, U5> = arr![1u8, 1u8, 1u8, 1u8, 1u8]; } }
-mod q424 { use super::*; fn p(a: &GA<u8, U5>) { let _r: &[u8; 5] = a.as_ref(); } }
-mod q425 { use super::*; fn p(x: &[GA<u8, U5>]) { let _g: &[[u8; 5]] = GA::into_chunks(x); } }
-mod q426 { use super::*; fn p(a: GA<u8, U5>) { let (_c, _x): (GA<u8, U6>, u8) = a.pop_back(); } }
-mod q427 { use super::*; fn p() { let _g: GA<u8, U6> = GA::<u8, U5>::generate(|i| i as u8); } }
-mod q428 { use super::*; fn p(a: GA<u8, U5>) { let _x = a.into_array::<6>(); } }
-mod q429 { use super::*; fn p(x: &[u8; 6]) { let _g: &GA<u8, U5> = x.into(); } }
-mod q430 { use super::*; fn p(x: &mut [GA<u8, U5>]) { let _g: &mut [[u8; 6]] = GA::into_chunks_mut(x); } }
-mod q431 { use super::*; fn p(a: GA<u8, U5>) { let (_x, _c): (u8, GA<u8, U7>) = a.remove(0); } }
-mod q432 { use super::*; fn p() { let _a: GA<u8, U7> = arr![7u8; U5]; } }
-mod q433 { use super::*; fn p(a: GA<u8, U5>) { let _x: [u8; 7] = a.into(); } }
-mod q434 { use super::*; fn p(x: &[[u8; 7]]) { let _g: &[GA<u8, U5>] = GA::from_chunks(x); } }
-mod q435 { use super::*; fn p(a: GA<u8, U5>) { let _c: GA<u8, U8> = a.append(1u8); } }
-mod q436 { use super::*; fn p(a: GA<u8, U5>) { let _m: GA<u16, U8> = a.map(|x| x as u16); } }
-mod q437 { use super::*; fn p() { let _a: GA<u8, U8> = arr![1u8, 1u8, 1u8, 1u8, 1u8]; } }
-mod q438 { use super::*; fn p(a: &GA<u8, U5>) { let _r: &[u8; 8] = a.as_ref(); } }
-mod q439 { use super::*; fn p(x: &[GA<u8, U5>]) { let _g: &[[u8; 8]] = GA::into_chunks(x); } }
-mod q440 { use super::*; fn p(a: GA<u8, U5>) { let _u: GA<GA<u8, U0>, U2> = a.unflatten(); } }
-mod q441 { use super::*; fn p(a: GA<u8, U5>) { let _u: GA<GA<u8, U1>, U0> = a.unflatten(); } }
-mod q442 { use super::*; fn p(a: GA<u8, U5>) { let _u: GA<GA<u8, U1>, U6> = a.unflatten(); } }
-mod q443 { use super::*; fn p(a: GA<u8, U5>) { let _u: GA<GA<u8, U2>, U4> = a.unflatten(); } }
-mod q444 { use super::*; fn p(a: GA<u8, U5>) { let _u: GA<GA<u8, U3>, U2> = a.unflatten(); } }
-mod q445 { use super::*; fn p(a: GA<u8, U6>, b: GA<u8, U0>) { let _ = a.zip(b, |x, y| x.wrapping_add(y)); } }
-mod q446 { use super::*; fn p(a: GA<u8, U6>, b: GA<u8, U0>) { let _c: GA<u8, U0> = a.concat(b); } }
-mod q447 { use super::*; fn p(a: GA<GA<u8, U6>, U0>) { let _f: GA<u8, U1> = a.flatten(); } }
-mod q448 { use super::*; fn p(a: GA<u8, U6>, b: &mut GA<u8, U1>) { let _ = a.zip(b, |x, y| x.wrapping_add(*y)); } }
-mod q449 { use super::*; fn p(a: GA<u8, U6>, b: GA<u8, U1>) { let _c: GA<u8, U7> = a.concat(b); } }
-mod q450 { use super::*; fn p(a: GA<GA<u8, U6>, U1>) { let _f: GA<u8, U7> = a.flatten(); } }
-mod q451 { use super::*; fn p(a: GA<u8, U6>, b: GA<u8, U2>) -> bool { a < b } }
-mod q452 { use super::*; fn p(a: GA<GA<u8, U6>, U2>) { let _f: GA<u8, U8> = a.flatten(); } }
-mod q453 { use super::*; fn p(a: GA<GA<u8, U6>, U2>) { let _f: GA<u8, U13> = a.flatten(); } }
-mod q454 { use super::*; fn p(a: GA<u8, U6>, b: GA<u8, U3>) -> bool { a < b } }
-mod q455 { use super::*; fn p(a: GA<GA<u8, U6>, U3>) { let _f: GA<u8, U9> = a.flatten(); } }
-mod q456 { use super::*; fn p(a: GA<GA<u8, U6>, U3>) { let _f: GA<u8, U19> = a.flatten(); } }
-mod q457 { use super::*; fn p(a: GA<u8, U6>, b: GA<u8, U4>) -> bool { a < b } }
-mod q458 { use super::*; fn p(a: GA<GA<u8, U6>, U4>) { let _f: GA<u8, U10> = a.flatten(); } }
-mod q459 { use super::*; fn p(a: GA<GA<u8, U6>, U4>) { let _f: GA<u8, U25> = a.flatten(); } }
-mod q460 { use super::*; fn p(a: GA<u8, U6>, b: GA<u8, U5>) -> bool { a < b } }
-mod q461 { use super::*; fn p(a: GA<GA<u8, U6>, U5>) { let _f: GA<u8, U11> = a.flatten(); } }
-mod q462 { use super::*; fn p(a: GA<GA<u8, U6>, U5>) { let _f: GA<u8, U31> = a.flatten(); } }
-mod q463 { use super::*; fn p(a: GA<u8, U6>, b: GA<u8, U6>) -> bool { a < b } }
-mod q464 { use super::*; fn p(a: GA<GA<u8, U6>, U6>) { let _f: GA<u8, U12> = a.flatten(); } }
-mod q465 { use super::*; fn p(a: GA<GA<u8, U6>, U6>) { let _f: GA<u8, U37> = a.flatten(); } }
-mod q466 { use super::*; fn p(a: GA<u8, U6>) { let (_h, _t): (GA<u8, U0>, GA<u8, U7>) = Split::<u8, U0>::split(a); } }
-mod q467 { use super::*; fn p(a: GA<u8, U6>) { let (_h, _t): (GA<u8, U1>, GA<u8, U6>) = Split::<u8, U1>::split(a); } }
-mod q468 { use super::*; fn p(a: GA<u8, U6>) { let (_h, _t): (GA<u8, U2>, GA<u8, U5>) = Split::<u8, U2>::split(a); } }
-mod q469 { use super::*; fn p(a: GA<u8, U6>) { let (_h, _t): (GA<u8, U3>, GA<u8, U3>) = Split::<u8, U3>::split(a); } }
-mod q470 { use super::*; fn p(a: GA<u8, U6>) { let (_h, _t): (GA<u8, U4>, GA<u8, U0>) = Split::<u8, U4>::split(a); } }
-mod q471 { use super::*; fn p(a: GA<u8, U6>) { let (_h, _t): (GA<u8, U4>, GA<u8, U6>) = Split::<u8, U4>::split(a); } }
-mod q472 { use super::*; fn p(a: GA<u8, U6>) { let (_h, _t): (GA<u8, U5>, GA<u8, U2>) = Split::<u8, U5>::split(a); } }
-mod q473 { use super::*; fn p(a: GA<u8, U6>) { let (_h, _t): (GA<u8, U6>, GA<u8, U1>) = Split::<u8, U6>::split(a); } }
-mod q474 { use super::*; fn p(a: GA<u8, U6>) { let (_h, _t): (GA<u8, U7>, GA<u8, U1>) = Split::<u8, U7>::split(a); } }
-mod q475 { use super::*; fn p(a: GA<u8, U6>) { let (_c, _x): (GA<u8, U0>, u8) = a.pop_back(); } }
-mod q476 { use super::*; fn p() { let _g: GA<u8, U0> = GA::<u8, U6>::generate(|i| i as u8); } }
-mod q477 { use super::*; fn p(a: GA<u8, U6>) { let _x = a.into_array::<0>(); } }
-mod q478 { use super::*; fn p(x: &[u8; 0]) { let _g: &GA<u8, U6> = x.into(); } }
-mod q479 { use super::*; fn p(x: &mut [GA<u8, U6>]) { let _g: &mut [[u8; 0]] = GA::into_chunks_mut(x); } }
-mod q480 { use super::*; fn p(a: GA<u8, U6>) { let (_x, _c): (u8, GA<u8, U1>) = a.remove(0); } }
-mod q481 { use super::*; fn p() { let _a: GA<u8, U1> = arr![7u8; U6]; } }
-mod q482 { use super::*; fn p(a: GA<u8, U6>) { let _x: [u8; 1] = a.into(); } }
-mod q483 { use super::*; fn p(x: &[[u8; 1]]) { let _g: &[GA<u8, U6>] = GA::from_chunks(x); } }
-mod q484 { use super::*; fn p(a: GA<u8, U6>) { let _c: GA<u8, U2> = a.append(1u8); } }
-mod q485 { use super::*; fn p(a: GA<u8, U6>) { let _m: GA<u16, U2> = a.map(|x| x as u16); } }
-mod q486 { use super::*; fn p() { let _a: GA<u8, U2> = arr![1u8, 1u8, 1u8, 1u8, 1u8, 1u8]; } }
-mod q487 { use super::*; fn p(a: &GA<u8, U6>) { let _r: &[u8; 2] = a.as_ref(); } }
-mod q488 { use super::*; fn p(x: &[GA<u8, U6>]) { let _g: &[[u8; 2]] = GA::into_chunks(x); } }
-mod q489 { use super::*; fn p(a: GA<u8, U6>) { let (_c, _x): (GA<u8, U3>, u8) = a.pop_back(); } }
-mod q490 { use super::*; fn p() { let _g: GA<u8, U3> = GA::<u8, U6>::generate(|i| i as u8); } }
-mod q491 { use super::*; fn p(a: GA<u8, U6>) { let _x = a.into_array::<3>(); } }
-mod q492 { use super::*; fn p(x: &[u8; 3]) { let _g: &GA<u8, U6> = x.into(); } }
-mod q493 { use super::*; fn p(x: &mut [GA<u8, U6>]) { let _g: &mut [[u8; 3]] = GA::into_chunks_mut(x); } }
-mod q494 { use super::*; fn p(a: GA<u8, U6>) { let (_x, _c): (u8, GA<u8, U4>) = a.remove(0); } }
-mod q495 { use super::*; fn p() { let _a: GA<u8, U4> = arr![7u8; U6]; } }
-mod q496 { use super::*; fn p(a: GA<u8, U6>) { let _x: [u8; 4] = a.into(); } }
-mod q497 { use super::*; fn p(x: &[[u8; 4]]) { let _g: &[GA<u8, U6>] = GA::from_chunks(x); } }
-mod q498 { use super::*; fn p(a: GA<u8, U6>) { let _c: GA<u8, U5> = a.append(1u8); } }
-mod q499 { use super::*; fn p(a: GA<u8, U6>) { let _m: GA<u16, U5> = a.map(|x| x as u16); } }
-mod q500 { use super::*; fn p() { let _a: GA<u8, U5> = arr![1u8, 1u8, 1u8, 1u8, 1u8, 1u8]; } }
-mod q501 { use super::*; fn p(a: &GA<u8, U6>) { let _r: &[u8; 5] = a.as_ref(); } }
-mod q502 { use super::*; fn p(x: &[GA<u8, U6>]) { let _g: &[[u8; 5]] = GA::into_chunks(x); } }
-mod q503 { use super::*; fn p(a: GA<u8, U6>) { let (_c, _x): (GA<u8, U6>, u8) = a.pop_back(); } }
-mod q504 { use super::*; fn p() { let _g: GA<u8, U6> = GA::<u8, U6>::generate(|i| i as u8); } }
-mod q505 { use super::*; fn p(a: GA<u8, U6>) { let _x = a.into_array::<6>(); } }
-mod q506 { use super::*; fn p(x: &[u8; 6]) { let _g: &GA<u8, U6> = x.into(); } }
-mod q507 { use super::*; fn p(x: &mut [GA<u8, U6>]) { let _g: &mut [[u8; 6]] = GA::into_chunks_mut(x); } }
-mod q508 { use super::*; fn p(a: GA<u8, U6>) { let (_x, _c): (u8, GA<u8, U7>) = a.remove(0); } }
-mod q509 { use super::*; fn p() { let _a: GA<u8, U7> = arr![7u8; U6]; } }
-mod q510 { use super::*; fn p(a: GA<u8, U6>) { let _x: [u8; 7] = a.into(); } }
-mod q511 { use super::*; fn p(x: &[[u8; 7]]) { let _g: &[GA<u8, U6>] = GA::from_chunks(x); } }
-mod q512 { use super::*; fn p(a: GA<u8, U6>) { let _c: GA<u8, U8> = a.append(1u8); } }
-mod q513 { use super::*; fn p(a: GA<u8, U6>) { let _m: GA<u16, U8> = a.map(|x| x as u16); } }
-mod q514 { use super::*; fn p() { let _a: GA<u8, U8> = arr![1u8, 1u8, 1u8, 1u8, 1u8, 1u8]; } }
-mod q515 { use super::*; fn p(a: &GA<u8, U6>) { let _r: &[u8; 8] = a.as_ref(); } }
-mod q516 { use super::*; fn p(x: &[GA<u8, U6>]) { let _g: &[[u8; 8]] = GA::into_chunks(x); } }
-mod q517 { use super::*; fn p(a: GA<u8, U6>) { let _u: GA<GA<u8, U0>, U2> = a.unflatten(); } }
-mod q518 { use super::*; fn p(a: GA<u8, U6>) { let _u: GA<GA<u8, U1>, U0> = a.unflatten(); } }
-mod q519 { use super::*; fn p(a: GA<u8, U6>) { let _u: GA<GA<u8, U1>, U6> = a.unflatten(); } }
-mod q520 { use super::*; fn p(a: GA<u8, U6>) { let _u: GA<GA<u8, U2>, U4> = a.unflatten(); } }
-mod q521 { use super::*; fn p(a: GA<u8, U6>) { let _u: GA<GA<u8, U3>, U2> = a.unflatten(); } }
-mod q522 { use super::*; fn p() { let _g: GA<u8, U0> = (0u8, ).into(); } }
-mod q523 { use super::*; fn p() { let _g: GA<u8, U12> = (0u8, ).into(); } }
-mod q524 { use super::*; fn p() { let _g: GA<u8, U1> = (0u8, 0u8, ).into(); } }
-mod q525 { use super::*; fn p() { let _g: GA<u8, U12> = (0u8, 0u8, ).into(); } }
-mod q526 { use super::*; fn p() { let _g: GA<u8, U2> = (0u8, 0u8, 0u8, ).into(); } }
-mod q527 { use super::*; fn p() { let _g: GA<u8, U12> = (0u8, 0u8, 0u8, ).into(); } }
-mod q528 { use super::*; fn p() { let _g: GA<u8, U3> = (0u8, 0u8, 0u8, 0u8, ).into(); } }
-mod q529 { use super::*; fn p() { let _g: GA<u8, U12> = (0u8, 0u8, 0u8, 0u8, ).into(); } }
-mod q530 { use super::*; fn p() { let _g: GA<u8, U4> = (0u8, 0u8, 0u8, 0u8, 0u8, ).into(); } }
-mod q531 { use super::*; fn p() { let _g: GA<u8, U12> = (0u8, 0u8, 0u8, 0u8, 0u8, ).into(); } }
-mod q532 { use super::*; fn p() { let _g: GA<u8, U5> = (0u8, 0u8, 0u8, 0u8, 0u8, 0u8, ).into(); } }
-mod q533 { use super::*; fn p() { let _g: GA<u8, U12> = (0u8, 0u8, 0u8, 0u8, 0u8, 0u8, ).into(); } }
-mod q534 { use super::*; fn p() { let _g: GA<u8, U6> = (0u8, 0u8, 0u8, 0u8, 0u8, 0u8, 0u8, ).into(); } }
-mod q535 { use super::*; fn p() { let _g: GA<u8, U12> = (0u8, 0u8, 0u8, 0u8, 0u8, 0u8, 0u8, ).into(); } }
-mod q536 { use super::*; fn p() { let _g: GA<u8, U7> = (0u8, 0u8, 0u8, 0u8, 0u8, 0u8, 0u8, 0u8, ).into(); } }
-mod q537 { use super::*; fn p() { let _g: GA<u8, U12> = (0u8, 0u8, 0u8, 0u8, 0u8, 0u8, 0u8, 0u8, ).into(); } }
-mod q538 { use super::*; fn p() { let _g: GA<u8, U8> = (0u8, 0u8, 0u8, 0u8, 0u8, 0u8, 0u8, 0u8, 0u8, ).into(); } }
-mod q539 { use super::*; fn p() { let _g: GA<u8, U12> = (0u8, 0u8, 0u8, 0u8, 0u8, 0u8, 0u8, 0u8, 0u8, ).into(); } }
-mod q540 { use super::*; fn p() { let _g: GA<u8, U9> = (0u8, 0u8, 0u8, 0u8, 0u8, 0u8, 0u8, 0u8, 0u8, 0u8, ).into(); } }
-mod q541 { use super::*; fn p() { let _g: GA<u8, U12> = (0u8, 0u8, 0u8, 0u8, 0u8, 0u8, 0u8, 0u8, 0u8, 0u8, ).into(); } }
-mod q542 { use super::*; fn p() { let _g: GA<u8, U10> = (0u8, 0u8, 0u8, 0u8, 0u8, 0u8, 0u8, 0u8, 0u8, 0u8, 0u8, ).into(); } }
-mod q543 { use super::*; fn p() { let _g: GA<u8, U13> = (0u8, 0u8, 0u8, 0u8, 0u8, 0u8, 0u8, 0u8, 0u8, 0u8, 0u8, ).into(); } }
-mod q544 { use super::*; fn p() { let _g: GA<u8, U12> = (0u8, 0u8, 0u8, 0u8, 0u8, 0u8, 0u8, 0u8, 0u8, 0u8, 0u8, 0u8, ).into(); } }
-mod q545 { use super::*; fn p() { let _g: GA<u8, U12> = (0u8, 0u8, 0u8, 0u8, 0u8, 0u8, 0u8, 0u8, 0u8, 0u8, 0u8, 0u8, 0u8, ).into(); } }
-mod q546 { use super::*; fn p(a: GA<u8, U3>) -> String { format!("{:x}", a) } }
-mod q547 { use super::*; fn p(a: GA<u8, U16>) { let _c: GA<u8, U15> = a.append(1u8); } }
-mod q548 { use super::*; fn p(a: GA<u8, U16>, b: GA<u8, U16>) -> bool { a == b } }
-mod q549 { use super::*; fn p(a: GA<u8, U16>, b: GA<u8, U17>) { let _ = a.zip(b, |x, y| x.wrapping_add(y)); } }
-mod q550 { use super::*; fn p(a: GA<u8, U16>) { let (_h, _t): (GA<u8, U17>, GA<u8, U0>) = Split::<u8, U17>::split(a); } }
-mod q551 { use super::*; fn p(x: &[[u8; 32]]) { let _g: &[GA<u8, U33>] = GA::from_chunks(x); } }
-mod q552 { use super::*; fn p(a: GA<u8, U33>) { let _x: [u8; 33] = a.into_array(); } }
-mod q553 { use super::*; fn p(a: GA<u8, U33>) { let (_c, _x): (GA<u8, U34>, u8) = a.pop_back(); } }
-mod q554 { use super::*; fn p(a: GA<u8, U1023>) { let _c: GA<u8, U1022> = a.append(1u8); } }
-mod q555 { use super::*; fn p(a: GA<u8, U1023>, b: GA<u8, U1023>) -> bool { a == b } }
-mod q556 { use super::*; fn p(a: GA<u8, U1023>, b: GA<u8, U1024>) { let _ = a.zip(b, |x, y| x.wrapping_add(y)); } }
-mod q557 { use super::*; fn p(a: GA<u8, U1023>) { let (_h, _t): (GA<u8, U1024>, GA<u8, U0>) = Split::<u8, U1024>::split(a); } }
-mod q558 { use super::*; fn p(a: GA<u8, N1>) {} }
-mod q559 { use super::*; fn p<N>(a: GA<u8, N>) {} }
-mod q560 { use super::*; fn p() { fn need<X: Send>() {} need::<GenericArrayIter<u8, U0>>(); } }
-mod q561 { use super::*; fn p() { fn need<X: Clone>() {} need::<&'static GA<u8, U0>>(); } }
-mod q562 { use super::*; fn p() { fn need<X: Send>() {} need::<GA<u8, U1>>(); } }
-mod q563 { use super::*; fn p() { fn need<X: Clone>() {} need::<GenericArrayIter<u8, U1>>(); } }
-mod q564 { use super::*; fn p() { fn need<X: Send>() {} need::<Box<GA<u8, U1>>>(); } }
-mod q565 { use super::*; fn p() { fn need<X: Clone>() {} need::<GA<u8, U2>>(); } }
-mod q566 { use super::*; fn p() { fn need<X: Send>() {} need::<&'static GA<u8, U2>>(); } }
-mod q567 { use super::*; fn p() { fn need<X: Clone>() {} need::<Box<GA<u8, U2>>>(); } }
-mod q568 { use super::*; fn p() { fn need<X: Send>() {} need::<GenericArrayIter<u8, U3>>(); } }
-mod q569 { use super::*; fn p() { fn need<X: Clone>() {} need::<&'static GA<u8, U3>>(); } }
-mod q570 { use super::*; fn p() { fn need<X: Send>() {} need::<GA<u8, U6>>(); } }
-mod q571 { use super::*; fn p() { fn need<X: Clone>() {} need::<GenericArrayIter<u8, U6>>(); } }
-mod q572 { use super::*; fn p() { fn need<X: Send>() {} need::<Box<GA<u8, U6>>>(); } }
-mod q573 { use super::*; fn p() { fn need<X: Clone>() {} need::<GA<String, U0>>(); } }
-mod q574 { use super::*; fn p() { fn need<X: Send>() {} need::<&'static GA<String, U0>>(); } }
-mod q575 { use super::*; fn p() { fn need<X: Clone>() {} need::<Box<GA<String, U0>>>(); } }
-mod q576 { use super::*; fn p() { fn need<X: Send>() {} need::<GenericArrayIter<String, U1>>(); } }
-mod q577 { use super::*; fn p() { fn need<X: Clone>() {} need::<&'static GA<String, U1>>(); } }
-mod q578 { use super::*; fn p() { fn need<X: Send>() {} need::<GA<String, U2>>(); } }
-mod q579 { use super::*; fn p() { fn need<X: Clone>() {} need::<GenericArrayIter<String, U2>>(); } }
-mod q580 { use super::*; fn p() { fn need<X: Send>() {} need::<Box<GA<String, U2>>>(); } }
-mod q581 { use super::*; fn p() { fn need<X: Clone>() {} need::<GA<String, U3>>(); } }
-mod q582 { use super::*; fn p() { fn need<X: Send>() {} need::<&'static GA<String, U3>>(); } }
-mod q583 { use super::*; fn p() { fn need<X: Clone>() {} need::<Box<GA<String, U3>>>(); } }
-mod q584 { use super::*; fn p() { fn need<X: Send>() {} need::<GenericArrayIter<String, U6>>(); } }
-mod q585 { use super::*; fn p() { fn need<X: Clone>() {} need::<&'static GA<String, U6>>(); } }
-mod q586 { use super::*; fn p() { fn need<X: Send>() {} need::<GA<std::rc::Rc<u8>, U0>>(); } }
-mod q587 { use super::*; fn p() { fn need<X: Clone>() {} need::<GenericArrayIter<std::rc::Rc<u8>, U0>>(); } }
-mod q588 { use super::*; fn p() { fn need<X: Send>() {} need::<Box<GA<std::rc::Rc<u8>, U0>>>(); } }
-mod q589 { use super::*; fn p() { fn need<X: Clone>() {} need::<GA<std::rc::Rc<u8>, U1>>(); } }
-mod q590 { use super::*; fn p() { fn need<X: Send>() {} need::<&'static GA<std::rc::Rc<u8>, U1>>(); } }
-mod q591 { use super::*; fn p() { fn need<X: Clone>() {} need::<Box<GA<std::rc::Rc<u8>, U1>>>(); } }
-mod q592 { use super::*; fn p() { fn need<X: Send>() {} need::<GenericArrayIter<std::rc::Rc<u8>, U2>>(); } }
-mod q593 { use super::*; fn p() { fn need<X: Clone>() {} need::<&'static GA<std::rc::Rc<u8>, U2>>(); } }
-mod q594 { use super::*; fn p() { fn need<X: Send>() {} need::<GA<std::rc::Rc<u8>, U3>>(); } }
-mod q595 { use super::*; fn p() { fn need<X: Clone>() {} need::<GenericArrayIter<std::rc::Rc<u8>, U3>>(); } }
-mod q596 { use super::*; fn p() { fn need<X: Send>() {} need::<Box<GA<std::rc::Rc<u8>, U3>>>(); } }
-mod q597 { use super::*; fn p() { fn need<X: Clone>() {} need::<GA<std::rc::Rc<u8>, U6>>(); } }
-mod q598 { use super::*; fn p() { fn need<X: Send>() {} need::<&'static GA<std::rc::Rc<u8>, U6>>(); } }
-mod q599 { use super::*; fn p() { fn need<X: Clone>() {} need::<Box<GA<std::rc::Rc<u8>, U6>>>(); } }
-mod q600 { use super::*; fn p() { fn need<X: Send>() {} need::<GenericArrayIter<core::cell::Cell<u8>, U0>>(); } }
-mod q601 { use super::*; fn p() { fn need<X: Clone>() {} need::<&'static GA<core::cell::Cell<u8>, U0>>(); } }
-mod q602 { use super::*; fn p() { fn need<X: Send>() {} need::<GA<core::cell::Cell<u8>, U1>>(); } }
-mod q603 { use super::*; fn p() { fn need<X: Clone>() {} need::<GenericArrayIter<core::cell::Cell<u8>, U1>>(); } }
-mod q604 { use super::*; fn p() { fn need<X: Send>() {} need::<Box<GA<core::cell::Cell<u8>, U1>>>(); } }
-mod q605 { use super::*; fn p() { fn need<X: Clone>() {} need::<GA<core::cell::Cell<u8>, U2>>(); } }
-mod q606 { use super::*; fn p() { fn need<X: Send>() {} need::<&'static GA<core::cell::Cell<u8>, U2>>(); } }
-mod q607 { use super::*; fn p() { fn need<X: Clone>() {} need::<Box<GA<core::cell::Cell<u8>, U2>>>(); } }
-mod q608 { use super::*; fn p() { fn need<X: Send>() {} need::<GenericArrayIter<core::cell::Cell<u8>, U3>>(); } }
-mod q609 { use super::*; fn p() { fn need<X: Clone>() {} need::<&'static GA<core::cell::Cell<u8>, U3>>(); } }
-mod q610 { use super::*; fn p() { fn need<X: Send>() {} need::<GA<core::cell::Cell<u8>, U6>>(); } }
-mod q611 { use super::*; fn p() { fn need<X: Clone>() {} need::<GenericArrayIter<core::cell::Cell<u8>, U6>>(); } }
-mod q612 { use super::*; fn p() { fn need<X: Send>() {} need::<Box<GA<core::cell::Cell<u8>, U6>>>(); } }
-mod q613 { use super::*; fn p() { fn need<X: Clone>() {} need::<GA<*const u8, U0>>(); } }
-mod q614 { use super::*; fn p() { fn need<X: Send>() {} need::<&'static GA<*const u8, U0>>(); } }
-mod q615 { use super::*; fn p() { fn need<X: Clone>() {} need::<Box<GA<*const u8, U0>>>(); } }
-mod q616 { use super::*; fn p() { fn need<X: Send>() {} need::<GenericArrayIter<*const u8, U1>>(); } }
-mod q617 { use super::*; fn p() { fn need<X: Clone>() {} need::<&'static GA<*const u8, U1>>(); } }
-mod q618 { use super::*; fn p() { fn need<X: Send>() {} need::<GA<*const u8, U2>>(); } }
-mod q619 { use super::*; fn p() { fn need<X: Clone>() {} need::<GenericArrayIter<*const u8, U2>>(); } }
-mod q620 { use super::*; fn p() { fn need<X: Send>() {} need::<Box<GA<*const u8, U2>>>(); } }
-mod q621 { use super::*; fn p() { fn need<X: Clone>() {} need::<GA<*const u8, U3>>(); } }
-mod q622 { use super::*; fn p() { fn need<X: Send>() {} need::<&'static GA<*const u8, U3>>(); } }
-mod q623 { use super::*; fn p() { fn need<X: Clone>() {} need::<Box<GA<*const u8, U3>>>(); } }
-mod q624 { use super::*; fn p() { fn need<X: Send>() {} need::<GenericArrayIter<*const u8, U6>>(); } }
-mod q625 { use super::*; fn p() { fn need<X: Clone>() {} need::<&'static GA<*const u8, U6>>(); } }
-mod q626 { use super::*; fn p() { fn need<X: Send>() {} need::<GA<std::sync::MutexGuard<'static, u8>, U0>>(); } }
-mod q627 { use super::*; fn p() { fn need<X: Clone>() {} need::<GenericArrayIter<std::sync::MutexGuard<'static, u8>, U0>>(); } }
-mod q628 { use super::*; fn p() { fn need<X: Send>() {} need::<Box<GA<std::sync::MutexGuard<'static, u8>, U0>>>(); } }
-mod q629 { use super::*; fn p() { fn need<X: Clone>() {} need::<GA<std::sync::MutexGuard<'static, u8>, U1>>(); } }
-mod q630 { use super::*; fn p() { fn need<X: Send>() {} need::<&'static GA<std::sync::MutexGuard<'static, u8>, U1>>(); } }
-mod q631 { use super::*; fn p() { fn need<X: Clone>() {} need::<Box<GA<std::sync::MutexGuard<'static, u8>, U1>>>(); } }
-mod q632 { use super::*; fn p() { fn need<X: Send>() {} need::<GenericArrayIter<std::sync::MutexGuard<'static, u8>, U2>>(); } }
-mod q633 { use super::*; fn p() { fn need<X: Clone>() {} need::<&'static GA<std::sync::MutexGuard<'static, u8>, U2>>(); } }
-mod q634 { use super::*; fn p() { fn need<X: Send>() {} need::<GA<std::sync::MutexGuard<'static, u8>, U3>>(); } }
-mod q635 { use super::*; fn p() { fn need<X: Clone>() {} need::<GenericArrayIter<std::sync::MutexGuard<'static, u8>, U3>>(); } }
-mod q636 { use super::*; fn p() { fn need<X: Send>() {} need::<Box<GA<std::sync::MutexGuard<'static, u8>, U3>>>(); } }
-mod q637 { use super::*; fn p() { fn need<X: Clone>() {} need::<GA<std::sync::MutexGuard<'static, u8>, U6>>(); } }
-mod q638 { use super::*; fn p() { fn need<X: Send>() {} need::<&'static GA<std::sync::MutexGuard<'static, u8>, U6>>(); } }
-mod q639 { use super::*; fn p() { fn need<X: Clone>() {} need::<Box<GA<std::sync::MutexGuard<'static, u8>, U6>>>(); } }
+mod q1 { use super::*; fn p(a: GA<u8, U0>, b: GA<u8, U0>) -> bool { a == b } }
+mod q2 { use super::*; fn p(a: &GA<GA<u8, U0>, U0>) { let _f: &GA<u8, U0> = a.flatten(); } }
+mod q3 { use super::*; fn p(a: GA<u8, U0>, b: GA<u8, U1>) { let _ = GenericSequence::inverted_zip(b, a, |x: u8, y: u8| x.wrapping_add(y)); } }
+mod q4 { use super::*; fn p(a: GA<u8, U0>, b: GA<u8, U1>) { let _c: GA<u8, U0> = a.concat(b); } }
+mod q5 { use super::*; fn p(a: &GA<GA<u8, U0>, U1>) { let _f: &GA<u8, U1> = a.flatten(); } }
+mod q6 { use super::*; fn p(a: &GA<u8, U0>, b: GA<u8, U2>) { let _ = GenericSequence::inverted_zip2(b, a, |x: &u8, y: u8| x.wrapping_add(y)); } }
+mod q7 { use super::*; fn p(a: GA<u8, U0>, b: GA<u8, U2>) { let _c: GA<u8, U2> = a.concat(b); } }
+mod q8 { use super::*; fn p(a: GA<GA<u8, U0>, U2>) { let _f: GA<u8, U2> = a.flatten(); } }
+mod q9 { use super::*; fn p(a: GA<u8, U0>, b: GA<u8, U3>) { let _ = GenericSequence::inverted_zip2(b, a, |x: u8, y: u8| x.wrapping_add(y)); } }
+mod q10 { use super::*; fn p(a: GA<u8, U0>, b: GA<u8, U3>) { let _c: GA<u8, U2> = a.concat(b); } }
+mod q11 { use super::*; fn p(a: &GA<GA<u8, U0>, U3>) { let _f: &GA<u8, U1> = a.flatten(); } }
+mod q12 { use super::*; fn p(a: GA<u8, U0>, b: GA<u8, U4>) { let _ = GenericSequence::inverted_zip(b, a, |x: u8, y: u8| x.wrapping_add(y)); } }
+mod q13 { use super::*; fn p(a: GA<u8, U0>, b: GA<u8, U4>) { let _c: GA<u8, U0> = a.concat(b); } }
+mod q14 { use super::*; fn p(a: GA<GA<u8, U0>, U4>) { let _f: GA<u8, U1> = a.flatten(); } }
+mod q15 { use super::*; fn p(a: GA<u8, U0>, b: &mut GA<u8, U5>) { let _ = a.zip(b, |x, y| x.wrapping_add(*y)); } }
+mod q16 { use super::*; fn p(a: GA<u8, U0>, b: GA<u8, U5>) -> core::cmp::Ordering { core::cmp::Ord::cmp(&a, &b) } }
+mod q17 { use super::*; fn p(a: &GA<GA<u8, U0>, U5>) { let _f: &GA<u8, U0> = a.flatten(); } }
+mod q18 { use super::*; fn p(a: &GA<u8, U0>, b: &GA<u8, U6>) { let _ = a.zip(b, |x, y| x.wrapping_add(*y)); } }
+mod q19 { use super::*; fn p(a: GA<u8, U0>, b: GA<u8, U6>) -> bool { a < b } }
+mod q20 { use super::*; fn p(a: GA<GA<u8, U0>, U6>) { let _f: GA<u8, U0> = a.flatten(); } }
+mod q21 { use super::*; fn p(a: GA<u8, U0>) { let (_h, _t): (GA<u8, U0>, GA<u8, U0>) = Split::<u8, U0>::split(a); } }
+mod q22 { use super::*; fn p(a: GA<u8, U0>) { let (_h, _t): (GA<u8, U1>, GA<u8, U1>) = Split::<u8, U1>::split(a); } }
+mod q23 { use super::*; fn p(a: GA<u8, U0>) { let (_h, _t): (GA<u8, U3>, GA<u8, U0>) = Split::<u8, U3>::split(a); } }
+mod q24 { use super::*; fn p(a: GA<u8, U0>) { let (_h, _t): (GA<u8, U4>, GA<u8, U1>) = Split::<u8, U4>::split(a); } }
+mod q25 { use super::*; fn p(a: GA<u8, U0>) { let (_h, _t): (GA<u8, U6>, GA<u8, U0>) = Split::<u8, U6>::split(a); } }
+mod q26 { use super::*; fn p(a: GA<u8, U0>) { let (_h, _t): (GA<u8, U7>, GA<u8, U1>) = Split::<u8, U7>::split(a); } }
+mod q27 { use super::*; fn p(a: GA<u8, U0>) { let (_x, _c): (u8, GA<u8, U0>) = a.remove(0); } }
+mod q28 { use super::*; fn p() { let _a: GA<u8, U0> = arr![7u8; U0]; } }
+mod q29 { use super::*; fn p(a: GA<u8, U0>) { let _x: [u8; 0] = a.into(); } }
+mod q30 { use super::*; fn p(x: &[[u8; 0]]) { let _g: &[GA<u8, U0>] = GA::from_chunks(x); } }
+mod q31 { use super::*; fn p(a: GA<u8, U0>) { let _c: GA<u8, U1> = a.append(1u8); } }
+mod q32 { use super::*; fn p(a: GA<u8, U0>) { let _m: GA<u16, U1> = a.map(|x| x as u16); } }
+mod q33 { use super::*; fn p() { let _a: GA<u8, U1> = arr![]; } }
+mod q34 { use super::*; fn p(a: &GA<u8, U0>) { let _r: &[u8; 1] = a.as_ref(); } }
+mod q35 { use super::*; fn p(x: &[GA<u8, U0>]) { let _g: &[[u8; 1]] = GA::into_chunks(x); } }
+mod q36 { use super::*; fn p(a: GA<u8, U0>) { let (_c, _x): (GA<u8, U2>, u8) = a.pop_back(); } }
+mod q37 { use super::*; fn p() { let _g: GA<u8, U2> = GA::<u8, U0>::generate(|i| i as u8); } }
+mod q38 { use super::*; fn p(a: GA<u8, U0>) { let _x = a.into_array::<2>(); } }
+mod q39 { use super::*; fn p(x: &[u8; 2]) { let _g: &GA<u8, U0> = x.into(); } }
+mod q40 { use super::*; fn p(x: &mut [GA<u8, U0>]) { let _g: &mut [[u8; 2]] = GA::into_chunks_mut(x); } }
+mod q41 { use super::*; fn p(a: GA<u8, U0>) { let (_x, _c): (u8, GA<u8, U3>) = a.remove(0); } }
+mod q42 { use super::*; fn p() { let _a: GA<u8, U3> = arr![7u8; U0]; } }
+mod q43 { use super::*; fn p(a: GA<u8, U0>) { let _x: [u8; 3] = a.into(); } }
+mod q44 { use super::*; fn p(x: &[[u8; 3]]) { let _g: &[GA<u8, U0>] = GA::from_chunks(x); } }
+mod q45 { use super::*; fn p(a: GA<u8, U0>) { let _c: GA<u8, U4> = a.append(1u8); } }
+mod q46 { use super::*; fn p(a: GA<u8, U0>) { let _m: GA<u16, U4> = a.map(|x| x as u16); } }
+mod q47 { use super::*; fn p() { let _a: GA<u8, U4> = arr![]; } }
+mod q48 { use super::*; fn p(a: &GA<u8, U0>) { let _r: &[u8; 4] = a.as_ref(); } }
+mod q49 { use super::*; fn p(x: &[GA<u8, U0>]) { let _g: &[[u8; 4]] = GA::into_chunks(x); } }
+mod q50 { use super::*; fn p(a: GA<u8, U0>) { let (_c, _x): (GA<u8, U5>, u8) = a.pop_back(); } }
+mod q51 { use super::*; fn p() { let _g: GA<u8, U5> = GA::<u8, U0>::generate(|i| i as u8); } }
+mod q52 { use super::*; fn p(a: GA<u8, U0>) { let _x = a.into_array::<5>(); } }
+mod q53 { use super::*; fn p(x: &[u8; 5]) { let _g: &GA<u8, U0> = x.into(); } }
+mod q54 { use super::*; fn p(x: &mut [GA<u8, U0>]) { let _g: &mut [[u8; 5]] = GA::into_chunks_mut(x); } }
+mod q55 { use super::*; fn p(a: GA<u8, U0>) { let (_x, _c): (u8, GA<u8, U6>) = a.remove(0); } }
+mod q56 { use super::*; fn p() { let _a: GA<u8, U6> = arr![7u8; U0]; } }
+mod q57 { use super::*; fn p(a: GA<u8, U0>) { let _x: [u8; 6] = a.into(); } }
+mod q58 { use super::*; fn p(x: &[[u8; 6]]) { let _g: &[GA<u8, U0>] = GA::from_chunks(x); } }
+mod q59 { use super::*; fn p(a: GA<u8, U0>) { let _c: GA<u8, U7> = a.append(1u8); } }
+mod q60 { use super::*; fn p(a: GA<u8, U0>) { let _m: GA<u16, U7> = a.map(|x| x as u16); } }
+mod q61 { use super::*; fn p() { let _a: GA<u8, U7> = arr![]; } }
+mod q62 { use super::*; fn p(a: &GA<u8, U0>) { let _r: &[u8; 7] = a.as_ref(); } }
+mod q63 { use super::*; fn p(x: &[GA<u8, U0>]) { let _g: &[[u8; 7]] = GA::into_chunks(x); } }
+mod q64 { use super::*; fn p(a: GA<u8, U0>) { let (_c, _x): (GA<u8, U8>, u8) = a.pop_back(); } }
+mod q65 { use super::*; fn p() { let _g: GA<u8, U8> = GA::<u8, U0>::generate(|i| i as u8); } }
+mod q66 { use super::*; fn p(a: GA<u8, U0>) { let _x = a.into_array::<8>(); } }
+mod q67 { use super::*; fn p(x: &[u8; 8]) { let _g: &GA<u8, U0> = x.into(); } }
+mod q68 { use super::*; fn p(x: &mut [GA<u8, U0>]) { let _g: &mut [[u8; 8]] = GA::into_chunks_mut(x); } }
+mod q69 { use super::*; fn p(a: GA<u8, U0>) { let _u: GA<GA<u8, U0>, U4> = a.unflatten(); } }
+mod q70 { use super::*; fn p(a: GA<u8, U0>) { let _u: GA<GA<u8, U1>, U2> = a.unflatten(); } }
+mod q71 { use super::*; fn p(a: GA<u8, U0>) { let _u: GA<GA<u8, U2>, U0> = a.unflatten(); } }
+mod q72 { use super::*; fn p(a: GA<u8, U0>) { let _u: GA<GA<u8, U2>, U6> = a.unflatten(); } }
+mod q73 { use super::*; fn p(a: GA<u8, U0>) { let _u: GA<GA<u8, U3>, U4> = a.unflatten(); } }
+mod q74 { use super::*; fn p(a: GA<u8, U1>, b: &mut GA<u8, U0>) { let _ = a.zip(b, |x, y| x.wrapping_add(*y)); } }
+mod q75 { use super::*; fn p(a: GA<u8, U1>, b: GA<u8, U0>) -> core::cmp::Ordering { core::cmp::Ord::cmp(&a, &b) } }
+mod q76 { use super::*; fn p(a: GA<GA<u8, U1>, U0>) { let _f: GA<u8, U1> = a.flatten(); } }
+mod q77 { use super::*; fn p(a: GA<u8, U1>, b: GA<u8, U1>) { let _ = GenericSequence::inverted_zip2(b, a, |x: u8, y: u8| x.wrapping_add(y)); } }
+mod q78 { use super::*; fn p(a: GA<u8, U1>, b: GA<u8, U1>) { let _c: GA<u8, U1> = a.concat(b); } }
+mod q79 { use super::*; fn p(a: &GA<GA<u8, U1>, U1>) { let _f: &GA<u8, U1> = a.flatten(); } }
+mod q80 { use super::*; fn p(a: GA<u8, U1>, b: GA<u8, U2>) { let _ = GenericSequence::inverted_zip(b, a, |x: u8, y: u8| x.wrapping_add(y)); } }
+mod q81 { use super::*; fn p(a: GA<u8, U1>, b: GA<u8, U2>) { let _c: GA<u8, U0> = a.concat(b); } }
+mod q82 { use super::*; fn p(a: GA<GA<u8, U1>, U2>) { let _f: GA<u8, U2> = a.flatten(); } }
+mod q83 { use super::*; fn p(a: GA<u8, U1>, b: &mut GA<u8, U3>) { let _ = a.zip(b, |x, y| x.wrapping_add(*y)); } }
+mod q84 { use super::*; fn p(a: GA<u8, U1>, b: GA<u8, U3>) -> core::cmp::Ordering { core::cmp::Ord::cmp(&a, &b) } }
+mod q85 { use super::*; fn p(a: &GA<GA<u8, U1>, U3>) { let _f: &GA<u8, U2> = a.flatten(); } }
+mod q86 { use super::*; fn p(a: &GA<u8, U1>, b: &GA<u8, U4>) { let _ = a.zip(b, |x, y| x.wrapping_add(*y)); } }
+mod q87 { use super::*; fn p(a: GA<u8, U1>, b: GA<u8, U4>) -> bool { a < b } }
+mod q88 { use super::*; fn p(a: GA<GA<u8, U1>, U4>) { let _f: GA<u8, U3> = a.flatten(); } }
+mod q89 { use super::*; fn p(a: GA<u8, U1>, b: GA<u8, U5>) { let _ = a.zip(b, |x, y| x.wrapping_add(y)); } }
+mod q90 { use super::*; fn p(a: GA<u8, U1>, b: GA<u8, U5>) -> bool { a == b } }
+mod q91 { use super::*; fn p(a: GA<u8, U1>, b: GA<u8, U5>) { let _c: GA<u8, U7> = a.concat(b); } }
+mod q92 { use super::*; fn p(a: &GA<GA<u8, U1>, U5>) { let _f: &GA<u8, U6> = a.flatten(); } }
+mod q93 { use super::*; fn p(a: &GA<u8, U1>, b: GA<u8, U6>) { let _ = GenericSequence::inverted_zip2(b, a, |x: &u8, y: u8| x.wrapping_add(y)); } }
+mod q94 { use super::*; fn p(a: GA<u8, U1>, b: GA<u8, U6>) { let _c: GA<u8, U7> = a.concat(b); } }
+mod q95 { use super::*; fn p(a: GA<GA<u8, U1>, U6>) { let _f: GA<u8, U7> = a.flatten(); } }
+mod q96 { use super::*; fn p(a: GA<u8, U1>) { let (_h, _t): (GA<u8, U0>, GA<u8, U2>) = Split::<u8, U0>::split(a); } }
+mod q97 { use super::*; fn p(a: GA<u8, U1>) { let (_h, _t): (GA<u8, U2>, GA<u8, U0>) = Split::<u8, U2>::split(a); } }
+mod q98 { use super::*; fn p(a: GA<u8, U1>) { let (_h, _t): (GA<u8, U3>, GA<u8, U1>) = Split::<u8, U3>::split(a); } }
+mod q99 { use super::*; fn p(a: GA<u8, U1>) { let (_h, _t): (GA<u8, U5>, GA<u8, U0>) = Split::<u8, U5>::split(a); } }
+mod q100 { use super::*; fn p(a: GA<u8, U1>) { let (_h, _t): (GA<u8, U6>, GA<u8, U1>) = Split::<u8, U6>::split(a); } }
+mod q101 { use super::*; fn p(a: GA<u8, U1>) { let _c: GA<u8, U0> = a.append(1u8); } }
+mod q102 { use super::*; fn p(a: GA<u8, U1>) { let _m: GA<u16, U0> = a.map(|x| x as u16); } }
+mod q103 { use super::*; fn p() { let _a: GA<u8, U0> = arr![1u8]; } }
+mod q104 { use super::*; fn p(a: &GA<u8, U1>) { let _r: &[u8; 0] = a.as_ref(); } }
+mod q105 { use super::*; fn p(x: &[GA<u8, U1>]) { let _g: &[[u8; 0]] = GA::into_chunks(x); } }
+mod q106 { use super::*; fn p(a: GA<u8, U1>) { let (_c, _x): (GA<u8, U1>, u8) = a.pop_back(); } }
+mod q107 { use super::*; fn p() { let _g: GA<u8, U1> = GA::<u8, U1>::generate(|i| i as u8); } }
+mod q108 { use super::*; fn p(a: GA<u8, U1>) { let _x = a.into_array::<1>(); } }
+mod q109 { use super::*; fn p(x: &[u8; 1]) { let _g: &GA<u8, U1> = x.into(); } }
+mod q110 { use super::*; fn p(x: &mut [GA<u8, U1>]) { let _g: &mut [[u8; 1]] = GA::into_chunks_mut(x); } }
+mod q111 { use super::*; fn p(a: GA<u8, U1>) { let (_x, _c): (u8, GA<u8, U2>) = a.remove(0); } }
+mod q112 { use super::*; fn p() { let _a: GA<u8, U2> = arr![7u8; U1]; } }
+mod q113 { use super::*; fn p(a: GA<u8, U1>) { let _x: [u8; 2] = a.into(); } }
+mod q114 { use super::*; fn p(x: &[[u8; 2]]) { let _g: &[GA<u8, U1>] = GA::from_chunks(x); } }
+mod q115 { use super::*; fn p(a: GA<u8, U1>) { let _c: GA<u8, U3> = a.append(1u8); } }
+mod q116 { use super::*; fn p(a: GA<u8, U1>) { let _m: GA<u16, U3> = a.map(|x| x as u16); } }
+mod q117 { use super::*; fn p() { let _a: GA<u8, U3> = arr![1u8]; } }
+mod q118 { use super::*; fn p(a: &GA<u8, U1>) { let _r: &[u8; 3] = a.as_ref(); } }
+mod q119 { use super::*; fn p(x: &[GA<u8, U1>]) { let _g: &[[u8; 3]] = GA::into_chunks(x); } }
+mod q120 { use super::*; fn p(a: GA<u8, U1>) { let (_c, _x): (GA<u8, U4>, u8) = a.pop_back(); } }
+mod q121 { use super::*; fn p() { let _g: GA<u8, U4> = GA::<u8, U1>::generate(|i| i as u8); } }
+mod q122 { use super::*; fn p(a: GA<u8, U1>) { let _x = a.into_array::<4>(); } }
+mod q123 { use super::*; fn p(x: &[u8; 4]) { let _g: &GA<u8, U1> = x.into(); } }
+mod q124 { use super::*; fn p(x: &mut [GA<u8, U1>]) { let _g: &mut [[u8; 4]] = GA::into_chunks_mut(x); } }
+mod q125 { use super::*; fn p(a: GA<u8, U1>) { let (_x, _c): (u8, GA<u8, U5>) = a.remove(0); } }
+mod q126 { use super::*; fn p() { let _a: GA<u8, U5> = arr![7u8; U1]; } }
+mod q127 { use super::*; fn p(a: GA<u8, U1>) { let _x: [u8; 5] = a.into(); } }
+mod q128 { use super::*; fn p(x: &[[u8; 5]]) { let _g: &[GA<u8, U1>] = GA::from_chunks(x); } }
+mod q129 { use super::*; fn p(a: GA<u8, U1>) { let _c: GA<u8, U6> = a.append(1u8); } }
+mod q130 { use super::*; fn p(a: GA<u8, U1>) { let _m: GA<u16, U6> = a.map(|x| x as u16); } }
+mod q131 { use super::*; fn p() { let _a: GA<u8, U6> = arr![1u8]; } }
+mod q132 { use super::*; fn p(a: &GA<u8, U1>) { let _r: &[u8; 6] = a.as_ref(); } }
+mod q133 { use super::*; fn p(x: &[GA<u8, U1>]) { let _g: &[[u8; 6]] = GA::into_chunks(x); } }
+mod q134 { use super::*; fn p(a: GA<u8, U1>) { let (_c, _x): (GA<u8, U7>, u8) = a.pop_back(); } }
+mod q135 { use super::*; fn p() { let _g: GA<u8, U7> = GA::<u8, U1>::generate(|i| i as u8); } }
+mod q136 { use super::*; fn p(a: GA<u8, U1>) { let _x = a.into_array::<7>(); } }
+mod q137 { use super::*; fn p(x: &[u8; 7]) { let _g: &GA<u8, U1> = x.into(); } }
+mod q138 { use super::*; fn p(x: &mut [GA<u8, U1>]) { let _g: &mut [[u8; 7]] = GA::into_chunks_mut(x); } }
+mod q139 { use super::*; fn p(a: GA<u8, U1>) { let (_x, _c): (u8, GA<u8, U8>) = a.remove(0); } }
+mod q140 { use super::*; fn p() { let _a: GA<u8, U8> = arr![7u8; U1]; } }
+mod q141 { use super::*; fn p(a: GA<u8, U1>) { let _x: [u8; 8] = a.into(); } }
+mod q142 { use super::*; fn p(x: &[[u8; 8]]) { let _g: &[GA<u8, U1>] = GA::from_chunks(x); } }
+mod q143 { use super::*; fn p(a: GA<u8, U1>) { let _u: GA<GA<u8, U0>, U0> = a.unflatten(); } }
+mod q144 { use super::*; fn p(a: GA<u8, U1>) { let _u: GA<GA<u8, U0>, U6> = a.unflatten(); } }
+mod q145 { use super::*; fn p(a: GA<u8, U1>) { let _u: GA<GA<u8, U1>, U4> = a.unflatten(); } }
+mod q146 { use super::*; fn p(a: GA<u8, U1>) { let _u: GA<GA<u8, U2>, U2> = a.unflatten(); } }
+mod q147 { use super::*; fn p(a: GA<u8, U1>) { let _u: GA<GA<u8, U3>, U0> = a.unflatten(); } }
+mod q148 { use super::*; fn p(a: GA<u8, U1>) { let _u: GA<GA<u8, U3>, U6> = a.unflatten(); } }
+mod q149 { use super::*; fn p(a: GA<u8, U2>, b: GA<u8, U0>) { let _ = GenericSequence::inverted_zip2(b, a, |x: u8, y: u8| x.wrapping_add(y)); } }
+mod q150 { use super::*; fn p(a: GA<u8, U2>, b: GA<u8, U0>) { let _c: GA<u8, U1> = a.concat(b); } }
+mod q151 { use super::*; fn p(a: &GA<GA<u8, U2>, U0>) { let _f: &GA<u8, U1> = a.flatten(); } }
+mod q152 { use super::*; fn p(a: GA<u8, U2>, b: GA<u8, U1>) { let _ = GenericSequence::inverted_zip(b, a, |x: u8, y: u8| x.wrapping_add(y)); } }
+mod q153 { use super::*; fn p(a: GA<u8, U2>, b: GA<u8, U1>) { let _c: GA<u8, U0> = a.concat(b); } }
+mod q154 { use super::*; fn p(a: GA<GA<u8, U2>, U1>) { let _f: GA<u8, U2> = a.flatten(); } }
+mod q155 { use super::*; fn p(a: GA<u8, U2>, b: &mut GA<u8, U2>) { let _ = a.zip(b, |x, y| x.wrapping_add(*y)); } }
+mod q156 { use super::*; fn p(a: GA<u8, U2>, b: GA<u8, U2>) -> core::cmp::Ordering { core::cmp::Ord::cmp(&a, &b) } }
+mod q157 { use super::*; fn p(a: &GA<GA<u8, U2>, U2>) { let _f: &GA<u8, U3> = a.flatten(); } }
+mod q158 { use super::*; fn p(a: &GA<u8, U2>, b: &GA<u8, U3>) { let _ = a.zip(b, |x, y| x.wrapping_add(*y)); } }
+mod q159 { use super::*; fn p(a: GA<u8, U2>, b: GA<u8, U3>) -> bool { a < b } }
+mod q160 { use super::*; fn p(a: GA<GA<u8, U2>, U3>) { let _f: GA<u8, U5> = a.flatten(); } }
+mod q161 { use super::*; fn p(a: GA<u8, U2>, b: GA<u8, U4>) { let _ = a.zip(b, |x, y| x.wrapping_add(y)); } }
+mod q162 { use super::*; fn p(a: GA<u8, U2>, b: GA<u8, U4>) -> bool { a == b } }
+mod q163 { use super::*; fn p(a: GA<u8, U2>, b: GA<u8, U4>) { let _c: GA<u8, U7> = a.concat(b); } }
+mod q164 { use super::*; fn p(a: &GA<GA<u8, U2>, U4>) { let _f: &GA<u8, U8> = a.flatten(); } }
+mod q165 { use super::*; fn p(a: GA<u8, U2>, b: GA<u8, U5>) { let _ = GenericSequence::inverted_zip(b, a, |x: u8, y: u8| x.wrapping_add(y)); } }
+mod q166 { use super::*; fn p(a: GA<u8, U2>, b: GA<u8, U5>) { let _c: GA<u8, U0> = a.concat(b); } }
+mod q167 { use super::*; fn p(a: GA<GA<u8, U2>, U5>) { let _f: GA<u8, U9> = a.flatten(); } }
+mod q168 { use super::*; fn p(a: GA<u8, U2>, b: GA<u8, U6>) { let _ = a.zip(b, |x, y| x.wrapping_add(y)); } }
+mod q169 { use super::*; fn p(a: GA<u8, U2>, b: GA<u8, U6>) -> bool { a == b } }
+mod q170 { use super::*; fn p(a: GA<u8, U2>, b: GA<u8, U6>) { let _c: GA<u8, U9> = a.concat(b); } }
+mod q171 { use super::*; fn p(a: &GA<GA<u8, U2>, U6>) { let _f: &GA<u8, U12> = a.flatten(); } }
+mod q172 { use super::*; fn p(a: &GA<u8, U2>) { let (_h, _t): (&GA<u8, U0>, &GA<u8, U2>) = Split::<u8, U0>::split(a); } }
+mod q173 { use super::*; fn p(a: &GA<u8, U2>) { let (_h, _t): (&GA<u8, U1>, &GA<u8, U1>) = Split::<u8, U1>::split(a); } }
+mod q174 { use super::*; fn p(a: &GA<u8, U2>) { let (_h, _t): (&GA<u8, U2>, &GA<u8, U1>) = Split::<u8, U2>::split(a); } }
+mod q175 { use super::*; fn p(a: &GA<u8, U2>) { let (_h, _t): (&GA<u8, U3>, &GA<u8, U1>) = Split::<u8, U3>::split(a); } }
+mod q176 { use super::*; fn p(a: &GA<u8, U2>) { let (_h, _t): (&GA<u8, U4>, &GA<u8, U1>) = Split::<u8, U4>::split(a); } }
+mod q177 { use super::*; fn p(a: &GA<u8, U2>) { let (_h, _t): (&GA<u8, U5>, &GA<u8, U1>) = Split::<u8, U5>::split(a); } }
+mod q178 { use super::*; fn p(a: &GA<u8, U2>) { let (_h, _t): (&GA<u8, U6>, &GA<u8, U1>) = Split::<u8, U6>::split(a); } }
+mod q179 { use super::*; fn p(a: &GA<u8, U2>) { let (_h, _t): (&GA<u8, U7>, &GA<u8, U1>) = Split::<u8, U7>::split(a); } }
+mod q180 { use super::*; fn p(a: GA<u8, U2>) { let (_x, _c): (u8, GA<u8, U0>) = a.pop_front(); } }
+mod q181 { use super::*; fn p(a: GA<u8, U2>, b: GA<u8, U2>) { let _z: GA<u16, U0> = a.zip(b, |x, y| x as u16 + y as u16); } }
+mod q182 { use super::*; fn p() { let _g = GA::<u8, U2>::from_array([0u8; 0]); } }
+mod q183 { use super::*; fn p(x: &mut [u8; 0]) { let _g: &mut GA<u8, U2> = x.into(); } }
+mod q184 { use super::*; fn p(x: &mut [GA<u8, U2>]) { let _g = GA::<u8, U2>::into_chunks_mut::<0>(x); } }
+mod q185 { use super::*; fn p(a: GA<u8, U2>) { let (_x, _c): (u8, GA<u8, U1>) = a.swap_remove(0); } }
+mod q186 { use super::*; fn p() { let _a: GA<u8, U1> = arr![7u8; 2]; } }
+mod q187 { use super::*; fn p() { let _g: GA<u8, U2> = [0u8; 1].into(); } }
+mod q188 { use super::*; fn p(x: &mut [[u8; 1]]) { let _g: &mut [GA<u8, U2>] = GA::from_chunks_mut(x); } }
+mod q189 { use super::*; fn p(a: GA<u8, U2>) { let _c: GA<u8, U2> = a.prepend(1u8); } }
+mod q190 { use super::*; fn p(a: &GA<u8, U2>) { let _m: GA<u16, U2> = a.map(|x| *x as u16); } }
+mod q191 { use super::*; fn p(a: GA<u8, U2>) { let _x: [u8; 2] = a.into_array(); } }
+mod q192 { use super::*; fn p(a: &mut GA<u8, U2>) { let _r: &mut [u8; 2] = a.as_mut(); } }
+mod q193 { use super::*; fn p(x: &[GA<u8, U2>]) { let _g = GA::<u8, U2>::into_chunks::<2>(x); } }
+mod q194 { use super::*; fn p(a: GA<u8, U2>) { let (_x, _c): (u8, GA<u8, U3>) = a.pop_front(); } }
+mod q195 { use super::*; fn p(a: GA<u8, U2>, b: GA<u8, U2>) { let _z: GA<u16, U3> = a.zip(b, |x, y| x as u16 + y as u16); } }
+mod q196 { use super::*; fn p() { let _g = GA::<u8, U2>::from_array([0u8; 3]); } }
+mod q197 { use super::*; fn p(x: &mut [u8; 3]) { let _g: &mut GA<u8, U2> = x.into(); } }
+mod q198 { use super::*; fn p(x: &mut [GA<u8, U2>]) { let _g = GA::<u8, U2>::into_chunks_mut::<3>(x); } }
+mod q199 { use super::*; fn p(a: GA<u8, U2>) { let (_x, _c): (u8, GA<u8, U4>) = a.swap_remove(0); } }
+mod q200 { use super::*; fn p() { let _a: GA<u8, U4> = arr![7u8; 2]; } }
+mod q201 { use super::*; fn p() { let _g: GA<u8, U2> = [0u8; 4].into(); } }
+mod q202 { use super::*; fn p(x: &mut [[u8; 4]]) { let _g: &mut [GA<u8, U2>] = GA::from_chunks_mut(x); } }
+mod q203 { use super::*; fn p(a: GA<u8, U2>) { let _c: GA<u8, U5> = a.prepend(1u8); } }
+mod q204 { use super::*; fn p(a: &GA<u8, U2>) { let _m: GA<u16, U5> = a.map(|x| *x as u16); } }
+mod q205 { use super::*; fn p(a: GA<u8, U2>) { let _x: [u8; 5] = a.into_array(); } }
+mod q206 { use super::*; fn p(a: &mut GA<u8, U2>) { let _r: &mut [u8; 5] = a.as_mut(); } }
+mod q207 { use super::*; fn p(x: &[GA<u8, U2>]) { let _g = GA::<u8, U2>::into_chunks::<5>(x); } }
+mod q208 { use super::*; fn p(a: GA<u8, U2>) { let (_x, _c): (u8, GA<u8, U6>) = a.pop_front(); } }
+mod q209 { use super::*; fn p(a: GA<u8, U2>, b: GA<u8, U2>) { let _z: GA<u16, U6> = a.zip(b, |x, y| x as u16 + y as u16); } }
+mod q210 { use super::*; fn p() { let _g = GA::<u8, U2>::from_array([0u8; 6]); } }
+mod q211 { use super::*; fn p(x: &mut [u8; 6]) { let _g: &mut GA<u8, U2> = x.into(); } }
+mod q212 { use super::*; fn p(x: &mut [GA<u8, U2>]) { let _g = GA::<u8, U2>::into_chunks_mut::<6>(x); } }
+mod q213 { use super::*; fn p(a: GA<u8, U2>) { let (_x, _c): (u8, GA<u8, U7>) = a.swap_remove(0); } }
+mod q214 { use super::*; fn p() { let _a: GA<u8, U7> = arr![7u8; 2]; } }
+mod q215 { use super::*; fn p() { let _g: GA<u8, U2> = [0u8; 7].into(); } }
+mod q216 { use super::*; fn p(x: &mut [[u8; 7]]) { let _g: &mut [GA<u8, U2>] = GA::from_chunks_mut(x); } }
+mod q217 { use super::*; fn p(a: GA<u8, U2>) { let _c: GA<u8, U8> = a.prepend(1u8); } }
+mod q218 { use super::*; fn p(a: &GA<u8, U2>) { let _m: GA<u16, U8> = a.map(|x| *x as u16); } }
+mod q219 { use super::*; fn p(a: GA<u8, U2>) { let _x: [u8; 8] = a.into_array(); } }
+mod q220 { use super::*; fn p(a: &mut GA<u8, U2>) { let _r: &mut [u8; 8] = a.as_mut(); } }
+mod q221 { use super::*; fn p(x: &[GA<u8, U2>]) { let _g = GA::<u8, U2>::into_chunks::<8>(x); } }
+mod q222 { use super::*; fn p(a: GA<u8, U2>) { let _u: GA<GA<u8, U0>, U3> = a.unflatten(); } }
+mod q223 { use super::*; fn p(a: GA<u8, U2>) { let _u: GA<GA<u8, U1>, U1> = a.unflatten(); } }
+mod q224 { use super::*; fn p(a: GA<u8, U2>) { let _u: GA<GA<u8, U1>, U7> = a.unflatten(); } }
+mod q225 { use super::*; fn p(a: GA<u8, U2>) { let _u: GA<GA<u8, U2>, U5> = a.unflatten(); } }
+mod q226 { use super::*; fn p(a: GA<u8, U2>) { let _u: GA<GA<u8, U3>, U3> = a.unflatten(); } }
+mod q227 { use super::*; fn p(a: &GA<u8, U3>, b: &GA<u8, U0>) { let _ = a.zip(b, |x, y| x.wrapping_add(*y)); } }
+mod q228 { use super::*; fn p(a: GA<u8, U3>, b: GA<u8, U0>) -> bool { a < b } }
+mod q229 { use super::*; fn p(a: GA<GA<u8, U3>, U0>) { let _f: GA<u8, U0> = a.flatten(); } }
+mod q230 { use super::*; fn p(a: GA<u8, U3>, b: GA<u8, U1>) { let _ = a.zip(b, |x, y| x.wrapping_add(y)); } }
+mod q231 { use super::*; fn p(a: GA<u8, U3>, b: GA<u8, U1>) -> bool { a == b } }
+mod q232 { use super::*; fn p(a: GA<u8, U3>, b: GA<u8, U1>) { let _c: GA<u8, U5> = a.concat(b); } }
+mod q233 { use super::*; fn p(a: &GA<GA<u8, U3>, U1>) { let _f: &GA<u8, U4> = a.flatten(); } }
+mod q234 { use super::*; fn p(a: &GA<u8, U3>, b: GA<u8, U2>) { let _ = GenericSequence::inverted_zip2(b, a, |x: &u8, y: u8| x.wrapping_add(y)); } }
+mod q235 { use super::*; fn p(a: GA<u8, U3>, b: GA<u8, U2>) { let _c: GA<u8, U5> = a.concat(b); } }
+mod q236 { use super::*; fn p(a: GA<GA<u8, U3>, U2>) { let _f: GA<u8, U7> = a.flatten(); } }
+mod q237 { use super::*; fn p(a: GA<u8, U3>, b: GA<u8, U3>) { let _ = GenericSequence::inverted_zip2(b, a, |x: u8, y: u8| x.wrapping_add(y)); } }
+mod q238 { use super::*; fn p(a: GA<u8, U3>, b: GA<u8, U3>) { let _c: GA<u8, U5> = a.concat(b); } }
+mod q239 { use super::*; fn p(a: &GA<GA<u8, U3>, U3>) { let _f: &GA<u8, U8> = a.flatten(); } }
+mod q240 { use super::*; fn p(a: &GA<u8, U3>, b: &GA<u8, U4>) { let _ = a.zip(b, |x, y| x.wrapping_add(*y)); } }
+mod q241 { use super::*; fn p(a: GA<u8, U3>, b: GA<u8, U4>) -> bool { a < b } }
+mod q242 { use super::*; fn p(a: GA<GA<u8, U3>, U4>) { let _f: GA<u8, U7> = a.flatten(); } }
+mod q243 { use super::*; fn p(a: GA<GA<u8, U3>, U4>) { let _f: GA<u8, U13> = a.flatten(); } }
+mod q244 { use super::*; fn p(a: GA<u8, U3>, b: GA<u8, U5>) { let _ = GenericSequence::inverted_zip2(b, a, |x: u8, y: u8| x.wrapping_add(y)); } }
+mod q245 { use super::*; fn p(a: GA<u8, U3>, b: GA<u8, U5>) { let _c: GA<u8, U7> = a.concat(b); } }
+mod q246 { use super::*; fn p(a: &GA<GA<u8, U3>, U5>) { let _f: &GA<u8, U14> = a.flatten(); } }
+mod q247 { use super::*; fn p(a: &GA<u8, U3>, b: &GA<u8, U6>) { let _ = a.zip(b, |x, y| x.wrapping_add(*y)); } }
+mod q248 { use super::*; fn p(a: GA<u8, U3>, b: GA<u8, U6>) -> bool { a < b } }
+mod q249 { use super::*; fn p(a: GA<GA<u8, U3>, U6>) { let _f: GA<u8, U9> = a.flatten(); } }
+mod q250 { use super::*; fn p(a: GA<GA<u8, U3>, U6>) { let _f: GA<u8, U19> = a.flatten(); } }
+mod q251 { use super::*; fn p(a: GA<u8, U3>) { let (_h, _t): (GA<u8, U0>, GA<u8, U4>) = Split::<u8, U0>::split(a); } }
+mod q252 { use super::*; fn p(a: GA<u8, U3>) { let (_h, _t): (GA<u8, U1>, GA<u8, U3>) = Split::<u8, U1>::split(a); } }
+mod q253 { use super::*; fn p(a: GA<u8, U3>) { let (_h, _t): (GA<u8, U2>, GA<u8, U2>) = Split::<u8, U2>::split(a); } }
+mod q254 { use super::*; fn p(a: GA<u8, U3>) { let (_h, _t): (GA<u8, U3>, GA<u8, U1>) = Split::<u8, U3>::split(a); } }
+mod q255 { use super::*; fn p(a: GA<u8, U3>) { let (_h, _t): (GA<u8, U4>, GA<u8, U1>) = Split::<u8, U4>::split(a); } }
+mod q256 { use super::*; fn p(a: GA<u8, U3>) { let (_h, _t): (GA<u8, U5>, GA<u8, U1>) = Split::<u8, U5>::split(a); } }
+mod q257 { use super::*; fn p(a: GA<u8, U3>) { let (_h, _t): (GA<u8, U6>, GA<u8, U1>) = Split::<u8, U6>::split(a); } }
+mod q258 { use super::*; fn p(a: GA<u8, U3>) { let (_h, _t): (GA<u8, U7>, GA<u8, U1>) = Split::<u8, U7>::split(a); } }
+mod q259 { use super::*; fn p(a: GA<u8, U3>) { let (_c, _x): (GA<u8, U0>, u8) = a.pop_back(); } }
+mod q260 { use super::*; fn p() { let _g: GA<u8, U0> = GA::<u8, U3>::generate(|i| i as u8); } }
+mod q261 { use super::*; fn p(a: GA<u8, U3>) { let _x = a.into_array::<0>(); } }
+mod q262 { use super::*; fn p(x: &[u8; 0]) { let _g: &GA<u8, U3> = x.into(); } }
+mod q263 { use super::*; fn p(x: &mut [GA<u8, U3>]) { let _g: &mut [[u8; 0]] = GA::into_chunks_mut(x); } }
+mod q264 { use super::*; fn p(a: GA<u8, U3>) { let (_x, _c): (u8, GA<u8, U1>) = a.remove(0); } }
+mod q265 { use super::*; fn p() { let _a: GA<u8, U1> = arr![7u8; U3]; } }
+mod q266 { use super::*; fn p(a: GA<u8, U3>) { let _x: [u8; 1] = a.into(); } }
+mod q267 { use super::*; fn p(x: &[[u8; 1]]) { let _g: &[GA<u8, U3>] = GA::from_chunks(x); } }
+mod q268 { use super::*; fn p(a: GA<u8, U3>) { let _c: GA<u8, U2> = a.append(1u8); } }
+mod q269 { use super::*; fn p(a: GA<u8, U3>) { let _m: GA<u16, U2> = a.map(|x| x as u16); } }
+mod q270 { use super::*; fn p() { let _a: GA<u8, U2> = arr![1u8, 1u8, 1u8]; } }
+mod q271 { use super::*; fn p(a: &GA<u8, U3>) { let _r: &[u8; 2] = a.as_ref(); } }
+mod q272 { use super::*; fn p(x: &[GA<u8, U3>]) { let _g: &[[u8; 2]] = GA::into_chunks(x); } }
+mod q273 { use super::*; fn p(a: GA<u8, U3>) { let (_c, _x): (GA<u8, U3>, u8) = a.pop_back(); } }
+mod q274 { use super::*; fn p() { let _g: GA<u8, U3> = GA::<u8, U3>::generate(|i| i as u8); } }
+mod q275 { use super::*; fn p(a: GA<u8, U3>) { let _x = a.into_array::<3>(); } }
+mod q276 { use super::*; fn p(x: &[u8; 3]) { let _g: &GA<u8, U3> = x.into(); } }
+mod q277 { use super::*; fn p(x: &mut [GA<u8, U3>]) { let _g: &mut [[u8; 3]] = GA::into_chunks_mut(x); } }
+mod q278 { use super::*; fn p(a: GA<u8, U3>) { let (_x, _c): (u8, GA<u8, U4>) = a.remove(0); } }
+mod q279 { use super::*; fn p() { let _a: GA<u8, U4> = arr![7u8; U3]; } }
+mod q280 { use super::*; fn p(a: GA<u8, U3>) { let _x: [u8; 4] = a.into(); } }
+mod q281 { use super::*; fn p(x: &[[u8; 4]]) { let _g: &[GA<u8, U3>] = GA::from_chunks(x); } }
+mod q282 { use super::*; fn p(a: GA<u8, U3>) { let _c: GA<u8, U5> = a.append(1u8); } }
+mod q283 { use super::*; fn p(a: GA<u8, U3>) { let _m: GA<u16, U5> = a.map(|x| x as u16); } }
+mod q284 { use super::*; fn p() { let _a: GA<u8, U5> = arr![1u8, 1u8, 1u8]; } }
+mod q285 { use super::*; fn p(a: &GA<u8, U3>) { let _r: &[u8; 5] = a.as_ref(); } }
+mod q286 { use super::*; fn p(x: &[GA<u8, U3>]) { let _g: &[[u8; 5]] = GA::into_chunks(x); } }
+mod q287 { use super::*; fn p(a: GA<u8, U3>) { let (_c, _x): (GA<u8, U6>, u8) = a.pop_back(); } }
+mod q288 { use super::*; fn p() { let _g: GA<u8, U6> = GA::<u8, U3>::generate(|i| i as u8); } }
+mod q289 { use super::*; fn p(a: GA<u8, U3>) { let _x = a.into_array::<6>(); } }
+mod q290 { use super::*; fn p(x: &[u8; 6]) { let _g: &GA<u8, U3> = x.into(); } }
+mod q291 { use super::*; fn p(x: &mut [GA<u8, U3>]) { let _g: &mut [[u8; 6]] = GA::into_chunks_mut(x); } }
+mod q292 { use super::*; fn p(a: GA<u8, U3>) { let (_x, _c): (u8, GA<u8, U7>) = a.remove(0); } }
+mod q293 { use super::*; fn p() { let _a: GA<u8, U7> = arr![7u8; U3]; } }
+mod q294 { use super::*; fn p(a: GA<u8, U3>) { let _x: [u8; 7] = a.into(); } }
+mod q295 { use super::*; fn p(x: &[[u8; 7]]) { let _g: &[GA<u8, U3>] = GA::from_chunks(x); } }
+mod q296 { use super::*; fn p(a: GA<u8, U3>) { let _c: GA<u8, U8> = a.append(1u8); } }
+mod q297 { use super::*; fn p(a: GA<u8, U3>) { let _m: GA<u16, U8> = a.map(|x| x as u16); } }
+mod q298 { use super::*; fn p() { let _a: GA<u8, U8> = arr![1u8, 1u8, 1u8]; } }
+mod q299 { use super::*; fn p(a: &GA<u8, U3>) { let _r: &[u8; 8] = a.as_ref(); } }
+mod q300 { use super::*; fn p(x: &[GA<u8, U3>]) { let _g: &[[u8; 8]] = GA::into_chunks(x); } }
+mod q301 { use super::*; fn p(a: GA<u8, U3>) { let _u: GA<GA<u8, U0>, U2> = a.unflatten(); } }
+mod q302 { use super::*; fn p(a: GA<u8, U3>) { let _u: GA<GA<u8, U1>, U0> = a.unflatten(); } }
+mod q303 { use super::*; fn p(a: GA<u8, U3>) { let _u: GA<GA<u8, U1>, U6> = a.unflatten(); } }
+mod q304 { use super::*; fn p(a: GA<u8, U3>) { let _u: GA<GA<u8, U2>, U4> = a.unflatten(); } }
+mod q305 { use super::*; fn p(a: GA<u8, U3>) { let _u: GA<GA<u8, U3>, U2> = a.unflatten(); } }
+mod q306 { use super::*; fn p(a: GA<u8, U4>, b: GA<u8, U0>) { let _ = a.zip(b, |x, y| x.wrapping_add(y)); } }
+mod q307 { use super::*; fn p(a: GA<u8, U4>, b: GA<u8, U0>) -> bool { a == b } }
+mod q308 { use super::*; fn p(a: GA<u8, U4>, b: GA<u8, U0>) { let _c: GA<u8, U5> = a.concat(b); } }
+mod q309 { use super::*; fn p(a: &GA<GA<u8, U4>, U0>) { let _f: &GA<u8, U4> = a.flatten(); } }
+mod q310 { use super::*; fn p(a: &GA<u8, U4>, b: GA<u8, U1>) { let _ = GenericSequence::inverted_zip2(b, a, |x: &u8, y: u8| x.wrapping_add(y)); } }
+mod q311 { use super::*; fn p(a: GA<u8, U4>, b: GA<u8, U1>) { let _c: GA<u8, U5> = a.concat(b); } }
+mod q312 { use super::*; fn p(a: GA<GA<u8, U4>, U1>) { let _f: GA<u8, U5> = a.flatten(); } }
+mod q313 { use super::*; fn p(a: GA<u8, U4>, b: GA<u8, U2>) { let _ = GenericSequence::inverted_zip2(b, a, |x: u8, y: u8| x.wrapping_add(y)); } }
+mod q314 { use super::*; fn p(a: GA<u8, U4>, b: GA<u8, U2>) { let _c: GA<u8, U5> = a.concat(b); } }
+mod q315 { use super::*; fn p(a: &GA<GA<u8, U4>, U2>) { let _f: &GA<u8, U7> = a.flatten(); } }
+mod q316 { use super::*; fn p(a: &GA<u8, U4>, b: &GA<u8, U3>) { let _ = a.zip(b, |x, y| x.wrapping_add(*y)); } }
+mod q317 { use super::*; fn p(a: GA<u8, U4>, b: GA<u8, U3>) -> bool { a < b } }
+mod q318 { use super::*; fn p(a: GA<GA<u8, U4>, U3>) { let _f: GA<u8, U7> = a.flatten(); } }
+mod q319 { use super::*; fn p(a: GA<GA<u8, U4>, U3>) { let _f: GA<u8, U13> = a.flatten(); } }
+mod q320 { use super::*; fn p(a: GA<u8, U4>, b: GA<u8, U4>) { let _ = GenericSequence::inverted_zip2(b, a, |x: u8, y: u8| x.wrapping_add(y)); } }
+mod q321 { use super::*; fn p(a: GA<u8, U4>, b: GA<u8, U4>) { let _c: GA<u8, U7> = a.concat(b); } }
+mod q322 { use super::*; fn p(a: &GA<GA<u8, U4>, U4>) { let _f: &GA<u8, U15> = a.flatten(); } }
+mod q323 { use super::*; fn p(a: &GA<u8, U4>, b: &GA<u8, U5>) { let _ = a.zip(b, |x, y| x.wrapping_add(*y)); } }
+mod q324 { use super::*; fn p(a: GA<u8, U4>, b: GA<u8, U5>) -> bool { a < b } }
+mod q325 { use super::*; fn p(a: GA<GA<u8, U4>, U5>) { let _f: GA<u8, U9> = a.flatten(); } }
+mod q326 { use super::*; fn p(a: GA<GA<u8, U4>, U5>) { let _f: GA<u8, U21> = a.flatten(); } }
+mod q327 { use super::*; fn p(a: GA<u8, U4>, b: GA<u8, U6>) { let _ = GenericSequence::inverted_zip2(b, a, |x: u8, y: u8| x.wrapping_add(y)); } }
+mod q328 { use super::*; fn p(a: GA<u8, U4>, b: GA<u8, U6>) { let _c: GA<u8, U9> = a.concat(b); } }
+mod q329 { use super::*; fn p(a: &GA<GA<u8, U4>, U6>) { let _f: &GA<u8, U23> = a.flatten(); } }
+mod q330 { use super::*; fn p(a: &GA<u8, U4>) { let (_h, _t): (&GA<u8, U0>, &GA<u8, U0>) = Split::<u8, U0>::split(a); } }
+mod q331 { use super::*; fn p(a: &GA<u8, U4>) { let (_h, _t): (&GA<u8, U1>, &GA<u8, U0>) = Split::<u8, U1>::split(a); } }
+mod q332 { use super::*; fn p(a: &GA<u8, U4>) { let (_h, _t): (&GA<u8, U2>, &GA<u8, U0>) = Split::<u8, U2>::split(a); } }
+mod q333 { use super::*; fn p(a: &GA<u8, U4>) { let (_h, _t): (&GA<u8, U2>, &GA<u8, U4>) = Split::<u8, U2>::split(a); } }
+mod q334 { use super::*; fn p(a: &GA<u8, U4>) { let (_h, _t): (&GA<u8, U3>, &GA<u8, U2>) = Split::<u8, U3>::split(a); } }
+mod q335 { use super::*; fn p(a: &GA<u8, U4>) { let (_h, _t): (&GA<u8, U4>, &GA<u8, U1>) = Split::<u8, U4>::split(a); } }
+mod q336 { use super::*; fn p(a: &GA<u8, U4>) { let (_h, _t): (&GA<u8, U5>, &GA<u8, U1>) = Split::<u8, U5>::split(a); } }
+mod q337 { use super::*; fn p(a: &GA<u8, U4>) { let (_h, _t): (&GA<u8, U6>, &GA<u8, U1>) = Split::<u8, U6>::split(a); } }
+mod q338 { use super::*; fn p(a: &GA<u8, U4>) { let (_h, _t): (&GA<u8, U7>, &GA<u8, U1>) = Split::<u8, U7>::split(a); } }
+mod q339 { use super::*; fn p(a: GA<u8, U4>) { let (_x, _c): (u8, GA<u8, U0>) = a.pop_front(); } }
+mod q340 { use super::*; fn p(a: GA<u8, U4>, b: GA<u8, U4>) { let _z: GA<u16, U0> = a.zip(b, |x, y| x as u16 + y as u16); } }
+mod q341 { use super::*; fn p() { let _g = GA::<u8, U4>::from_array([0u8; 0]); } }
+mod q342 { use super::*; fn p(x: &mut [u8; 0]) { let _g: &mut GA<u8, U4> = x.into(); } }
+mod q343 { use super::*; fn p(x: &mut [GA<u8, U4>]) { let _g = GA::<u8, U4>::into_chunks_mut::<0>(x); } }
+mod q344 { use super::*; fn p(a: GA<u8, U4>) { let (_x, _c): (u8, GA<u8, U1>) = a.swap_remove(0); } }
+mod q345 { use super::*; fn p() { let _a: GA<u8, U1> = arr![7u8; 4]; } }
+mod q346 { use super::*; fn p() { let _g: GA<u8, U4> = [0u8; 1].into(); } }
+mod q347 { use super::*; fn p(x: &mut [[u8; 1]]) { let _g: &mut [GA<u8, U4>] = GA::from_chunks_mut(x); } }
+mod q348 { use super::*; fn p(a: GA<u8, U4>) { let _c: GA<u8, U2> = a.prepend(1u8); } }
+mod q349 { use super::*; fn p(a: &GA<u8, U4>) { let _m: GA<u16, U2> = a.map(|x| *x as u16); } }
+mod q350 { use super::*; fn p(a: GA<u8, U4>) { let _x: [u8; 2] = a.into_array(); } }
+mod q351 { use super::*; fn p(a: &mut GA<u8, U4>) { let _r: &mut [u8; 2] = a.as_mut(); } }
+mod q352 { use super::*; fn p(x: &[GA<u8, U4>]) { let _g = GA::<u8, U4>::into_chunks::<2>(x); } }
+mod q353 { use super::*; fn p(a: GA<u8, U4>) { let (_x, _c): (u8, GA<u8, U3>) = a.pop_front(); } }
+mod q354 { use super::*; fn p(a: GA<u8, U4>, b: GA<u8, U4>) { let _z: GA<u16, U3> = a.zip(b, |x, y| x as u16 + y as u16); } }
+mod q355 { use super::*; fn p() { let _g = GA::<u8, U4>::from_array([0u8; 3]); } }
+mod q356 { use super::*; fn p(x: &mut [u8; 3]) { let _g: &mut GA<u8, U4> = x.into(); } }
+mod q357 { use super::*; fn p(x: &mut [GA<u8, U4>]) { let _g = GA::<u8, U4>::into_chunks_mut::<3>(x); } }
+mod q358 { use super::*; fn p(a: GA<u8, U4>) { let (_x, _c): (u8, GA<u8, U4>) = a.swap_remove(0); } }
+mod q359 { use super::*; fn p() { let _a: GA<u8, U4> = arr![7u8; 4]; } }
+mod q360 { use super::*; fn p() { let _g: GA<u8, U4> = [0u8; 4].into(); } }
+mod q361 { use super::*; fn p(x: &mut [[u8; 4]]) { let _g: &mut [GA<u8, U4>] = GA::from_chunks_mut(x); } }
+mod q362 { use super::*; fn p(a: GA<u8, U4>) { let _c: GA<u8, U5> = a.prepend(1u8); } }
+mod q363 { use super::*; fn p(a: &GA<u8, U4>) { let _m: GA<u16, U5> = a.map(|x| *x as u16); } }
+mod q364 { use super::*; fn p(a: GA<u8, U4>) { let _x: [u8; 5] = a.into_array(); } }
+mod q365 { use super::*; fn p(a: &mut GA<u8, U4>) { let _r: &mut [u8; 5] = a.as_mut(); } }
+mod q366 { use super::*; fn p(x: &[GA<u8, U4>]) { let _g = GA::<u8, U4>::into_chunks::<5>(x); } }
+mod q367 { use super::*; fn p(a: GA<u8, U4>) { let (_x, _c): (u8, GA<u8, U6>) = a.pop_front(); } }
+mod q368 { use super::*; fn p(a: GA<u8, U4>, b: GA<u8, U4>) { let _z: GA<u16, U6> = a.zip(b, |x, y| x as u16 + y as u16); } }
+mod q369 { use super::*; fn p() { let _g = GA::<u8, U4>::from_array([0u8; 6]); } }
+mod q370 { use super::*; fn p(x: &mut [u8; 6]) { let _g: &mut GA<u8, U4> = x.into(); } }
+mod q371 { use super::*; fn p(x: &mut [GA<u8, U4>]) { let _g = GA::<u8, U4>::into_chunks_mut::<6>(x); } }
+mod q372 { use super::*; fn p(a: GA<u8, U4>) { let (_x, _c): (u8, GA<u8, U7>) = a.swap_remove(0); } }
+mod q373 { use super::*; fn p() { let _a: GA<u8, U7> = arr![7u8; 4]; } }
+mod q374 { use super::*; fn p() { let _g: GA<u8, U4> = [0u8; 7].into(); } }
+mod q375 { use super::*; fn p(x: &mut [[u8; 7]]) { let _g: &mut [GA<u8, U4>] = GA::from_chunks_mut(x); } }
+mod q376 { use super::*; fn p(a: GA<u8, U4>) { let _c: GA<u8, U8> = a.prepend(1u8); } }
+mod q377 { use super::*; fn p(a: &GA<u8, U4>) { let _m: GA<u16, U8> = a.map(|x| *x as u16); } }
+mod q378 { use super::*; fn p(a: GA<u8, U4>) { let _x: [u8; 8] = a.into_array(); } }
+mod q379 { use super::*; fn p(a: &mut GA<u8, U4>) { let _r: &mut [u8; 8] = a.as_mut(); } }
+mod q380 { use super::*; fn p(x: &[GA<u8, U4>]) { let _g = GA::<u8, U4>::into_chunks::<8>(x); } }
+mod q381 { use super::*; fn p(a: GA<u8, U4>) { let _u: GA<GA<u8, U0>, U3> = a.unflatten(); } }
+mod q382 { use super::*; fn p(a: GA<u8, U4>) { let _u: GA<GA<u8, U1>, U1> = a.unflatten(); } }
+mod q383 { use super::*; fn p(a: GA<u8, U4>) { let _u: GA<GA<u8, U1>, U7> = a.unflatten(); } }
+mod q384 { use super::*; fn p(a: GA<u8, U4>) { let _u: GA<GA<u8, U2>, U5> = a.unflatten(); } }
+mod q385 { use super::*; fn p(a: GA<u8, U4>) { let _u: GA<GA<u8, U3>, U3> = a.unflatten(); } }
+mod q386 { use super::*; fn p(a: &GA<u8, U5>, b: &GA<u8, U0>) { let _ = a.zip(b, |x, y| x.wrapping_add(*y)); } }
+mod q387 { use super::*; fn p(a: GA<u8, U5>, b: GA<u8, U0>) -> bool { a < b } }
+mod q388 { use super::*; fn p(a: GA<GA<u8, U5>, U0>) { let _f: GA<u8, U0> = a.flatten(); } }
+mod q389 { use super::*; fn p(a: GA<u8, U5>, b: GA<u8, U1>) { let _ = a.zip(b, |x, y| x.wrapping_add(y)); } }
+mod q390 { use super::*; fn p(a: GA<u8, U5>, b: GA<u8, U1>) -> bool { a == b } }
+mod q391 { use super::*; fn p(a: GA<u8, U5>, b: GA<u8, U1>) { let _c: GA<u8, U7> = a.concat(b); } }
+mod q392 { use super::*; fn p(a: &GA<GA<u8, U5>, U1>) { let _f: &GA<u8, U6> = a.flatten(); } }
+mod q393 { use super::*; fn p(a: &GA<u8, U5>, b: GA<u8, U2>) { let _ = GenericSequence::inverted_zip2(b, a, |x: &u8, y: u8| x.wrapping_add(y)); } }
+mod q394 { use super::*; fn p(a: GA<u8, U5>, b: GA<u8, U2>) { let _c: GA<u8, U7> = a.concat(b); } }
+mod q395 { use super::*; fn p(a: GA<GA<u8, U5>, U2>) { let _f: GA<u8, U10> = a.flatten(); } }
+mod q396 { use super::*; fn p(a: GA<u8, U5>, b: &mut GA<u8, U3>) { let _ = a.zip(b, |x, y| x.wrapping_add(*y)); } }
+mod q397 { use super::*; fn p(a: GA<u8, U5>, b: GA<u8, U3>) -> core::cmp::Ordering { core::cmp::Ord::cmp(&a, &b) } }
+mod q398 { use super::*; fn p(a: &GA<GA<u8, U5>, U3>) { let _f: &GA<u8, U8> = a.flatten(); } }
+mod q399 { use super::*; fn p(a: &GA<GA<u8, U5>, U3>) { let _f: &GA<u8, U16> = a.flatten(); } }
+mod q400 { use super::*; fn p(a: &GA<u8, U5>, b: GA<u8, U4>) { let _ = GenericSequence::inverted_zip2(b, a, |x: &u8, y: u8| x.wrapping_add(y)); } }
+mod q401 { use super::*; fn p(a: GA<u8, U5>, b: GA<u8, U4>) { let _c: GA<u8, U9> = a.concat(b); } }
+mod q402 { use super::*; fn p(a: GA<GA<u8, U5>, U4>) { let _f: GA<u8, U20> = a.flatten(); } }
+mod q403 { use super::*; fn p(a: GA<u8, U5>, b: &mut GA<u8, U5>) { let _ = a.zip(b, |x, y| x.wrapping_add(*y)); } }
+mod q404 { use super::*; fn p(a: GA<u8, U5>, b: GA<u8, U5>) -> core::cmp::Ordering { core::cmp::Ord::cmp(&a, &b) } }
+mod q405 { use super::*; fn p(a: &GA<GA<u8, U5>, U5>) { let _f: &GA<u8, U10> = a.flatten(); } }
+mod q406 { use super::*; fn p(a: &GA<GA<u8, U5>, U5>) { let _f: &GA<u8, U26> = a.flatten(); } }
+mod q407 { use super::*; fn p(a: &GA<u8, U5>, b: GA<u8, U6>) { let _ = GenericSequence::inverted_zip2(b, a, |x: &u8, y: u8| x.wrapping_add(y)); } }
+mod q408 { use super::*; fn p(a: GA<u8, U5>, b: GA<u8, U6>) { let _c: GA<u8, U11> = a.concat(b); } }
+mod q409 { use super::*; fn p(a: GA<GA<u8, U5>, U6>) { let _f: GA<u8, U30> = a.flatten(); } }
+mod q410 { use super::*; fn p(a: GA<u8, U5>) { let (_h, _t): (GA<u8, U0>, GA<u8, U5>) = Split::<u8, U0>::split(a); } }
+mod q411 { use super::*; fn p(a: GA<u8, U5>) { let (_h, _t): (GA<u8, U1>, GA<u8, U4>) = Split::<u8, U1>::split(a); } }
+mod q412 { use super::*; fn p(a: GA<u8, U5>) { let (_h, _t): (GA<u8, U2>, GA<u8, U3>) = Split::<u8, U2>::split(a); } }
+mod q413 { use super::*; fn p(a: GA<u8, U5>) { let (_h, _t): (GA<u8, U3>, GA<u8, U0>) = Split::<u8, U3>::split(a); } }
+mod q414 { use super::*; fn p(a: GA<u8, U5>) { let (_h, _t): (GA<u8, U3>, GA<u8, U5>) = Split::<u8, U3>::split(a); } }
+mod q415 { use super::*; fn p(a: GA<u8, U5>) { let (_h, _t): (GA<u8, U4>, GA<u8, U2>) = Split::<u8, U4>::split(a); } }
+mod q416 { use super::*; fn p(a: GA<u8, U5>) { let (_h, _t): (GA<u8, U5>, GA<u8, U1>) = Split::<u8, U5>::split(a); } }
+mod q417 { use super::*; fn p(a: GA<u8, U5>) { let (_h, _t): (GA<u8, U6>, GA<u8, U1>) = Split::<u8, U6>::split(a); } }
+mod q418 { use super::*; fn p(a: GA<u8, U5>) { let (_h, _t): (GA<u8, U7>, GA<u8, U1>) = Split::<u8, U7>::split(a); } }
+mod q419 { use super::*; fn p(a: GA<u8, U5>) { let (_c, _x): (GA<u8, U0>, u8) = a.pop_back(); } }
+mod q420 { use super::*; fn p() { let _g: GA<u8, U0> = GA::<u8, U5>::generate(|i| i as u8); } }
+mod q421 { use super::*; fn p(a: GA<u8, U5>) { let _x = a.into_array::<0>(); } }
+mod q422 { use super::*; fn p(x: &[u8; 0]) { let _g: &GA<u8, U5> = x.into(); } }
+mod q423 { use super::*; fn p(x: &mut [GA<u8, U5>]) { let _g: &mut [[u8; 0]] = GA::into_chunks_mut(x); } }
+mod q424 { use super::*; fn p(a: GA<u8, U5>) { let (_x, _c): (u8, GA<u8, U1>) = a.remove(0); } }
+mod q425 { use super::*; fn p() { let _a: GA<u8, U1> = arr![7u8; U5]; } }
+mod q426 { use super::*; fn p(a: GA<u8, U5>) { let _x: [u8; 1] = a.into(); } }
+mod q427 { use super::*; fn p(x: &[[u8; 1]]) { let _g: &[GA<u8, U5>] = GA::from_chunks(x); } }
+mod q428 { use super::*; fn p(a: GA<u8, U5>) { let _c: GA<u8, U2> = a.append(1u8); } }
+mod q429 { use super::*; fn p(a: GA<u8, U5>) { let _m: GA<u16, U2> = a.map(|x| x as u16); } }
+mod q430 { use super::*; fn p() { let _a: GA<u8, U2> = arr![1u8, 1u8, 1u8, 1u8, 1u8]; } }
+mod q431 { use super::*; fn p(a: &GA<u8, U5>) { let _r: &[u8; 2] = a.as_ref(); } }
+mod q432 { use super::*; fn p(x: &[GA<u8, U5>]) { let _g: &[[u8; 2]] = GA::into_chunks(x); } }
+mod q433 { use super::*; fn p(a: GA<u8, U5>) { let (_c, _x): (GA<u8, U3>, u8) = a.pop_back(); } }
+mod q434 { use super::*; fn p() { let _g: GA<u8, U3> = GA::<u8, U5>::generate(|i| i as u8); } }
+mod q435 { use super::*; fn p(a: GA<u8, U5>) { let _x = a.into_array::<3>(); } }
+mod q436 { use super::*; fn p(x: &[u8; 3]) { let _g: &GA<u8, U5> = x.into(); } }
+mod q437 { use super::*; fn p(x: &mut [GA<u8, U5>]) { let _g: &mut [[u8; 3]] = GA::into_chunks_mut(x); } }
+mod q438 { use super::*; fn p(a: GA<u8, U5>) { let (_x, _c): (u8, GA<u8, U4>) = a.remove(0); } }
+mod q439 { use super::*; fn p() { let _a: GA<u8, U4> = arr![7u8; U5]; } }
+mod q440 { use super::*; fn p(a: GA<u8, U5>) { let _x: [u8; 4] = a.into(); } }
+mod q441 { use super::*; fn p(x: &[[u8; 4]]) { let _g: &[GA<u8, U5>] = GA::from_chunks(x); } }
+mod q442 { use super::*; fn p(a: GA<u8, U5>) { let _c: GA<u8, U5> = a.append(1u8); } }
+mod q443 { use super::*; fn p(a: GA<u8, U5>) { let _m: GA<u16, U5> = a.map(|x| x as u16); } }
+mod q444 { use super::*; fn p() { let _a: GA<u8, U5> = arr![1u8, 1u8, 1u8, 1u8, 1u8]; } }
+mod q445 { use super::*; fn p(a: &GA<u8, U5>) { let _r: &[u8; 5] = a.as_ref(); } }
+mod q446 { use super::*; fn p(x: &[GA<u8, U5>]) { let _g: &[[u8; 5]] = GA::into_chunks(x); } }
+mod q447 { use super::*; fn p(a: GA<u8, U5>) { let (_c, _x): (GA<u8, U6>, u8) = a.pop_back(); } }
+mod q448 { use super::*; fn p() { let _g: GA<u8, U6> = GA::<u8, U5>::generate(|i| i as u8); } }
+mod q449 { use super::*; fn p(a: GA<u8, U5>) { let _x = a.into_array::<6>(); } }
+mod q450 { use super::*; fn p(x: &[u8; 6]) { let _g: &GA<u8, U5> = x.into(); } }
+mod q451 { use super::*; fn p(x: &mut [GA<u8, U5>]) { let _g: &mut [[u8; 6]] = GA::into_chunks_mut(x); } }
+mod q452 { use super::*; fn p(a: GA<u8, U5>) { let (_x, _c): (u8, GA<u8, U7>) = a.remove(0); } }
+mod q453 { use super::*; fn p() { let _a: GA<u8, U7> = arr![7u8; U5]; } }
+mod q454 { use super::*; fn p(a: GA<u8, U5>) { let _x: [u8; 7] = a.into(); } }
+mod q455 { use super::*; fn p(x: &[[u8; 7]]) { let _g: &[GA<u8, U5>] = GA::from_chunks(x); } }
+mod q456 { use super::*; fn p(a: GA<u8, U5>) { let _c: GA<u8, U8> = a.append(1u8); } }
+mod q457 { use super::*; fn p(a: GA<u8, U5>) { let _m: GA<u16, U8> = a.map(|x| x as u16); } }
+mod q458 { use super::*; fn p() { let _a: GA<u8, U8> = arr![1u8, 1u8, 1u8, 1u8, 1u8]; } }
+mod q459 { use super::*; fn p(a: &GA<u8, U5>) { let _r: &[u8; 8] = a.as_ref(); } }
+mod q460 { use super::*; fn p(x: &[GA<u8, U5>]) { let _g: &[[u8; 8]] = GA::into_chunks(x); } }
+mod q461 { use super::*; fn p(a: GA<u8, U5>) { let _u: GA<GA<u8, U0>, U2> = a.unflatten(); } }
+mod q462 { use super::*; fn p(a: GA<u8, U5>) { let _u: GA<GA<u8, U1>, U0> = a.unflatten(); } }
+mod q463 { use super::*; fn p(a: GA<u8, U5>) { let _u: GA<GA<u8, U1>, U6> = a.unflatten(); } }
+mod q464 { use super::*; fn p(a: GA<u8, U5>) { let _u: GA<GA<u8, U2>, U4> = a.unflatten(); } }
+mod q465 { use super::*; fn p(a: GA<u8, U5>) { let _u: GA<GA<u8, U3>, U2> = a.unflatten(); } }
+mod q466 { use super::*; fn p(a: GA<u8, U6>, b: GA<u8, U0>) { let _ = a.zip(b, |x, y| x.wrapping_add(y)); } }
+mod q467 { use super::*; fn p(a: GA<u8, U6>, b: GA<u8, U0>) -> bool { a == b } }
+mod q468 { use super::*; fn p(a: GA<u8, U6>, b: GA<u8, U0>) { let _c: GA<u8, U7> = a.concat(b); } }
+mod q469 { use super::*; fn p(a: &GA<GA<u8, U6>, U0>) { let _f: &GA<u8, U6> = a.flatten(); } }
+mod q470 { use super::*; fn p(a: &GA<u8, U6>, b: GA<u8, U1>) { let _ = GenericSequence::inverted_zip2(b, a, |x: &u8, y: u8| x.wrapping_add(y)); } }
+mod q471 { use super::*; fn p(a: GA<u8, U6>, b: GA<u8, U1>) { let _c: GA<u8, U7> = a.concat(b); } }
+mod q472 { use super::*; fn p(a: GA<GA<u8, U6>, U1>) { let _f: GA<u8, U7> = a.flatten(); } }
+mod q473 { use super::*; fn p(a: GA<u8, U6>, b: GA<u8, U2>) { let _ = GenericSequence::inverted_zip2(b, a, |x: u8, y: u8| x.wrapping_add(y)); } }
+mod q474 { use super::*; fn p(a: GA<u8, U6>, b: GA<u8, U2>) { let _c: GA<u8, U7> = a.concat(b); } }
+mod q475 { use super::*; fn p(a: &GA<GA<u8, U6>, U2>) { let _f: &GA<u8, U11> = a.flatten(); } }
+mod q476 { use super::*; fn p(a: &GA<u8, U6>, b: &GA<u8, U3>) { let _ = a.zip(b, |x, y| x.wrapping_add(*y)); } }
+mod q477 { use super::*; fn p(a: GA<u8, U6>, b: GA<u8, U3>) -> bool { a < b } }
+mod q478 { use super::*; fn p(a: GA<GA<u8, U6>, U3>) { let _f: GA<u8, U9> = a.flatten(); } }
+mod q479 { use super::*; fn p(a: GA<GA<u8, U6>, U3>) { let _f: GA<u8, U19> = a.flatten(); } }
+mod q480 { use super::*; fn p(a: GA<u8, U6>, b: GA<u8, U4>) { let _ = GenericSequence::inverted_zip2(b, a, |x: u8, y: u8| x.wrapping_add(y)); } }
+mod q481 { use super::*; fn p(a: GA<u8, U6>, b: GA<u8, U4>) { let _c: GA<u8, U9> = a.concat(b); } }
+mod q482 { use super::*; fn p(a: &GA<GA<u8, U6>, U4>) { let _f: &GA<u8, U23> = a.flatten(); } }
+mod q483 { use super::*; fn p(a: &GA<u8, U6>, b: &GA<u8, U5>) { let _ = a.zip(b, |x, y| x.wrapping_add(*y)); } }
+mod q484 { use super::*; fn p(a: GA<u8, U6>, b: GA<u8, U5>) -> bool { a < b } }
+mod q485 { use super::*; fn p(a: GA<GA<u8, U6>, U5>) { let _f: GA<u8, U11> = a.flatten(); } }
+mod q486 { use super::*; fn p(a: GA<GA<u8, U6>, U5>) { let _f: GA<u8, U31> = a.flatten(); } }
+mod q487 { use super::*; fn p(a: GA<u8, U6>, b: GA<u8, U6>) { let _ = GenericSequence::inverted_zip2(b, a, |x: u8, y: u8| x.wrapping_add(y)); } }
+mod q488 { use super::*; fn p(a: GA<u8, U6>, b: GA<u8, U6>) { let _c: GA<u8, U11> = a.concat(b); } }
+mod q489 { use super::*; fn p(a: &GA<GA<u8, U6>, U6>) { let _f: &GA<u8, U35> = a.flatten(); } }
+mod q490 { use super::*; fn p(a: &GA<u8, U6>) { let (_h, _t): (&GA<u8, U0>, &GA<u8, U0>) = Split::<u8, U0>::split(a); } }
+mod q491 { use super::*; fn p(a: &GA<u8, U6>) { let (_h, _t): (&GA<u8, U1>, &GA<u8, U0>) = Split::<u8, U1>::split(a); } }
+mod q492 { use super::*; fn p(a: &GA<u8, U6>) { let (_h, _t): (&GA<u8, U2>, &GA<u8, U0>) = Split::<u8, U2>::split(a); } }
+mod q493 { use super::*; fn p(a: &GA<u8, U6>) { let (_h, _t): (&GA<u8, U2>, &GA<u8, U6>) = Split::<u8, U2>::split(a); } }
+mod q494 { use super::*; fn p(a: &GA<u8, U6>) { let (_h, _t): (&GA<u8, U3>, &GA<u8, U4>) = Split::<u8, U3>::split(a); } }
+mod q495 { use super::*; fn p(a: &GA<u8, U6>) { let (_h, _t): (&GA<u8, U4>, &GA<u8, U2>) = Split::<u8, U4>::split(a); } }
+mod q496 { use super::*; fn p(a: &GA<u8, U6>) { let (_h, _t): (&GA<u8, U5>, &GA<u8, U0>) = Split::<u8, U5>::split(a); } }
+mod q497 { use super::*; fn p(a: &GA<u8, U6>) { let (_h, _t): (&GA<u8, U5>, &GA<u8, U6>) = Split::<u8, U5>::split(a); } }
+mod q498 { use super::*; fn p(a: &GA<u8, U6>) { let (_h, _t): (&GA<u8, U6>, &GA<u8, U6>) = Split::<u8, U6>::split(a); } }
+mod q499 { use super::*; fn p(a: &GA<u8, U6>) { let (_h, _t): (&GA<u8, U7>, &GA<u8, U6>) = Split::<u8, U7>::split(a); } }
+mod q500 { use super::*; fn p(a: GA<u8, U6>) { let (_x, _c): (u8, GA<u8, U0>) = a.swap_remove(0); } }
+mod q501 { use super::*; fn p() { let _a: GA<u8, U0> = arr![7u8; 6]; } }
+mod q502 { use super::*; fn p() { let _g: GA<u8, U6> = [0u8; 0].into(); } }
+mod q503 { use super::*; fn p(x: &mut [[u8; 0]]) { let _g: &mut [GA<u8, U6>] = GA::from_chunks_mut(x); } }
+mod q504 { use super::*; fn p(a: GA<u8, U6>) { let _c: GA<u8, U1> = a.prepend(1u8); } }
+mod q505 { use super::*; fn p(a: &GA<u8, U6>) { let _m: GA<u16, U1> = a.map(|x| *x as u16); } }
+mod q506 { use super::*; fn p(a: GA<u8, U6>) { let _x: [u8; 1] = a.into_array(); } }
+mod q507 { use super::*; fn p(a: &mut GA<u8, U6>) { let _r: &mut [u8; 1] = a.as_mut(); } }
+mod q508 { use super::*; fn p(x: &[GA<u8, U6>]) { let _g = GA::<u8, U6>::into_chunks::<1>(x); } }
+mod q509 { use super::*; fn p(a: GA<u8, U6>) { let (_x, _c): (u8, GA<u8, U2>) = a.pop_front(); } }
+mod q510 { use super::*; fn p(a: GA<u8, U6>, b: GA<u8, U6>) { let _z: GA<u16, U2> = a.zip(b, |x, y| x as u16 + y as u16); } }
+mod q511 { use super::*; fn p() { let _g = GA::<u8, U6>::from_array([0u8; 2]); } }
+mod q512 { use super::*; fn p(x: &mut [u8; 2]) { let _g: &mut GA<u8, U6> = x.into(); } }
+mod q513 { use super::*; fn p(x: &mut [GA<u8, U6>]) { let _g = GA::<u8, U6>::into_chunks_mut::<2>(x); } }
+mod q514 { use super::*; fn p(a: GA<u8, U6>) { let (_x, _c): (u8, GA<u8, U3>) = a.swap_remove(0); } }
+mod q515 { use super::*; fn p() { let _a: GA<u8, U3> = arr![7u8; 6]; } }
+mod q516 { use super::*; fn p() { let _g: GA<u8, U6> = [0u8; 3].into(); } }
+mod q517 { use super::*; fn p(x: &mut [[u8; 3]]) { let _g: &mut [GA<u8, U6>] = GA::from_chunks_mut(x); } }
+mod q518 { use super::*; fn p(a: GA<u8, U6>) { let _c: GA<u8, U4> = a.prepend(1u8); } }
+mod q519 { use super::*; fn p(a: &GA<u8, U6>) { let _m: GA<u16, U4> = a.map(|x| *x as u16); } }
+mod q520 { use super::*; fn p(a: GA<u8, U6>) { let _x: [u8; 4] = a.into_array(); } }
+mod q521 { use super::*; fn p(a: &mut GA<u8, U6>) { let _r: &mut [u8; 4] = a.as_mut(); } }
+mod q522 { use super::*; fn p(x: &[GA<u8, U6>]) { let _g = GA::<u8, U6>::into_chunks::<4>(x); } }
+mod q523 { use super::*; fn p(a: GA<u8, U6>) { let (_x, _c): (u8, GA<u8, U5>) = a.pop_front(); } }
+mod q524 { use super::*; fn p(a: GA<u8, U6>, b: GA<u8, U6>) { let _z: GA<u16, U5> = a.zip(b, |x, y| x as u16 + y as u16); } }
+mod q525 { use super::*; fn p() { let _g = GA::<u8, U6>::from_array([0u8; 5]); } }
+mod q526 { use super::*; fn p(x: &mut [u8; 5]) { let _g: &mut GA<u8, U6> = x.into(); } }
+mod q527 { use super::*; fn p(x: &mut [GA<u8, U6>]) { let _g = GA::<u8, U6>::into_chunks_mut::<5>(x); } }
+mod q528 { use super::*; fn p(a: GA<u8, U6>) { let (_x, _c): (u8, GA<u8, U6>) = a.swap_remove(0); } }
+mod q529 { use super::*; fn p() { let _a: GA<u8, U6> = arr![7u8; 6]; } }
+mod q530 { use super::*; fn p() { let _g: GA<u8, U6> = [0u8; 6].into(); } }
+mod q531 { use super::*; fn p(x: &mut [[u8; 6]]) { let _g: &mut [GA<u8, U6>] = GA::from_chunks_mut(x); } }
+mod q532 { use super::*; fn p(a: GA<u8, U6>) { let _c: GA<u8, U7> = a.prepend(1u8); } }
+mod q533 { use super::*; fn p(a: &GA<u8, U6>) { let _m: GA<u16, U7> = a.map(|x| *x as u16); } }
+mod q534 { use super::*; fn p(a: GA<u8, U6>) { let _x: [u8; 7] = a.into_array(); } }
+mod q535 { use super::*; fn p(a: &mut GA<u8, U6>) { let _r: &mut [u8; 7] = a.as_mut(); } }
+mod q536 { use super::*; fn p(x: &[GA<u8, U6>]) { let _g = GA::<u8, U6>::into_chunks::<7>(x); } }
+mod q537 { use super::*; fn p(a: GA<u8, U6>) { let (_x, _c): (u8, GA<u8, U8>) = a.pop_front(); } }
+mod q538 { use super::*; fn p(a: GA<u8, U6>, b: GA<u8, U6>) { let _z: GA<u16, U8> = a.zip(b, |x, y| x as u16 + y as u16); } }
+mod q539 { use super::*; fn p() { let _g = GA::<u8, U6>::from_array([0u8; 8]); } }
+mod q540 { use super::*; fn p(x: &mut [u8; 8]) { let _g: &mut GA<u8, U6> = x.into(); } }
+mod q541 { use super::*; fn p(x: &mut [GA<u8, U6>]) { let _g = GA::<u8, U6>::into_chunks_mut::<8>(x); } }
+mod q542 { use super::*; fn p(a: GA<u8, U6>) { let _u: GA<GA<u8, U0>, U5> = a.unflatten(); } }
+mod q543 { use super::*; fn p(a: GA<u8, U6>) { let _u: GA<GA<u8, U1>, U3> = a.unflatten(); } }
+mod q544 { use super::*; fn p(a: GA<u8, U6>) { let _u: GA<GA<u8, U2>, U1> = a.unflatten(); } }
+mod q545 { use super::*; fn p(a: GA<u8, U6>) { let _u: GA<GA<u8, U2>, U7> = a.unflatten(); } }
+mod q546 { use super::*; fn p(a: GA<u8, U6>) { let _u: GA<GA<u8, U3>, U5> = a.unflatten(); } }
+mod q547 { use super::*; fn p(a: GA<u8, U1>) { let _t: (u8, ) = a.into(); } }
+mod q548 { use super::*; fn p(a: GA<u8, U13>) { let _t: (u8, ) = a.into(); } }
+mod q549 { use super::*; fn p(a: GA<u8, U2>) { let _t: (u8, u8, ) = a.into(); } }
+mod q550 { use super::*; fn p(a: GA<u8, U13>) { let _t: (u8, u8, ) = a.into(); } }
+mod q551 { use super::*; fn p(a: GA<u8, U3>) { let _t: (u8, u8, u8, ) = a.into(); } }
+mod q552 { use super::*; fn p(a: GA<u8, U13>) { let _t: (u8, u8, u8, ) = a.into(); } }
+mod q553 { use super::*; fn p(a: GA<u8, U4>) { let _t: (u8, u8, u8, u8, ) = a.into(); } }
+mod q554 { use super::*; fn p(a: GA<u8, U13>) { let _t: (u8, u8, u8, u8, ) = a.into(); } }
+mod q555 { use super::*; fn p(a: GA<u8, U5>) { let _t: (u8, u8, u8, u8, u8, ) = a.into(); } }
+mod q556 { use super::*; fn p(a: GA<u8, U13>) { let _t: (u8, u8, u8, u8, u8, ) = a.into(); } }
+mod q557 { use super::*; fn p(a: GA<u8, U6>) { let _t: (u8, u8, u8, u8, u8, u8, ) = a.into(); } }
+mod q558 { use super::*; fn p(a: GA<u8, U13>) { let _t: (u8, u8, u8, u8, u8, u8, ) = a.into(); } }
+mod q559 { use super::*; fn p(a: GA<u8, U7>) { let _t: (u8, u8, u8, u8, u8, u8, u8, ) = a.into(); } }
+mod q560 { use super::*; fn p(a: GA<u8, U13>) { let _t: (u8, u8, u8, u8, u8, u8, u8, ) = a.into(); } }
+mod q561 { use super::*; fn p(a: GA<u8, U8>) { let _t: (u8, u8, u8, u8, u8, u8, u8, u8, ) = a.into(); } }
+mod q562 { use super::*; fn p(a: GA<u8, U13>) { let _t: (u8, u8, u8, u8, u8, u8, u8, u8, ) = a.into(); } }
+mod q563 { use super::*; fn p(a: GA<u8, U9>) { let _t: (u8, u8, u8, u8, u8, u8, u8, u8, u8, ) = a.into(); } }
+mod q564 { use super::*; fn p(a: GA<u8, U13>) { let _t: (u8, u8, u8, u8, u8, u8, u8, u8, u8, ) = a.into(); } }
+mod q565 { use super::*; fn p(a: GA<u8, U10>) { let _t: (u8, u8, u8, u8, u8, u8, u8, u8, u8, u8, ) = a.into(); } }
+mod q566 { use super::*; fn p(a: GA<u8, U13>) { let _t: (u8, u8, u8, u8, u8, u8, u8, u8, u8, u8, ) = a.into(); } }
+mod q567 { use super::*; fn p(a: GA<u8, U11>) { let _t: (u8, u8, u8, u8, u8, u8, u8, u8, u8, u8, u8, ) = a.into(); } }
+mod q568 { use super::*; fn p(a: GA<u8, U0>) { let _t: (u8, u8, u8, u8, u8, u8, u8, u8, u8, u8, u8, u8, ) = a.into(); } }
+mod q569 { use super::*; fn p(a: GA<u8, U13>) { let _t: (u8, u8, u8, u8, u8, u8, u8, u8, u8, u8, u8, u8, ) = a.into(); } }
+mod q570 { use super::*; fn p(a: GA<u8, U13>) { let _t: (u8, u8, u8, u8, u8, u8, u8, u8, u8, u8, u8, u8, u8, ) = a.into(); } }
+mod q571 { use super::*; fn p(a: GA<i8, U3>) -> String { format!("{:X}", a) } }
+mod q572 { use super::*; fn p(x: &[[u8; 15]]) { let _g: &[GA<u8, U16>] = GA::from_chunks(x); } }
+mod q573 { use super::*; fn p(a: GA<u8, U16>) { let _x: [u8; 16] = a.into_array(); } }
+mod q574 { use super::*; fn p(a: GA<u8, U16>) { let (_c, _x): (GA<u8, U17>, u8) = a.pop_back(); } }
+mod q575 { use super::*; fn p(a: GA<u8, U33>) { let _c: GA<u8, U32> = a.append(1u8); } }
+mod q576 { use super::*; fn p(a: GA<u8, U33>, b: GA<u8, U33>) -> bool { a == b } }
+mod q577 { use super::*; fn p(a: GA<u8, U33>, b: GA<u8, U34>) { let _ = a.zip(b, |x, y| x.wrapping_add(y)); } }
+mod q578 { use super::*; fn p(a: GA<u8, U33>) { let (_h, _t): (GA<u8, U34>, GA<u8, U0>) = Split::<u8, U34>::split(a); } }
+mod q579 { use super::*; fn p(x: &[[u8; 1022]]) { let _g: &[GA<u8, U1023>] = GA::from_chunks(x); } }
+mod q580 { use super::*; fn p(a: GA<u8, U1023>) { let _x: [u8; 1023] = a.into_array(); } }
+mod q581 { use super::*; fn p(a: GA<u8, U1023>) { let (_c, _x): (GA<u8, U1024>, u8) = a.pop_back(); } }
+mod q582 { use super::*; fn p(a: GA<u8, ConstArrayLength<5>>) { let _x: [u8; 5] = a.into_array(); } }
+mod q583 { use super::*; fn p(a: GA<u8, usize>) {} }
+mod q584 { use super::*; fn p() { fn need<X: Sync>() {} need::<GA<u8, U0>>(); } }
+mod q585 { use super::*; fn p() { fn need<X: Copy>() {} need::<GenericArrayIter<u8, U0>>(); } }
+mod q586 { use super::*; fn p() { fn need<X: Sync>() {} need::<Box<GA<u8, U0>>>(); } }
+mod q587 { use super::*; fn p() { fn need<X: Copy>() {} need::<GA<u8, U1>>(); } }
+mod q588 { use super::*; fn p() { fn need<X: Sync>() {} need::<&'static GA<u8, U1>>(); } }
+mod q589 { use super::*; fn p() { fn need<X: Copy>() {} need::<Box<GA<u8, U1>>>(); } }
+mod q590 { use super::*; fn p() { fn need<X: Sync>() {} need::<GenericArrayIter<u8, U2>>(); } }
+mod q591 { use super::*; fn p() { fn need<X: Copy>() {} need::<&'static GA<u8, U2>>(); } }
+mod q592 { use super::*; fn p() { fn need<X: Sync>() {} need::<GA<u8, U3>>(); } }
+mod q593 { use super::*; fn p() { fn need<X: Copy>() {} need::<GenericArrayIter<u8, U3>>(); } }
+mod q594 { use super::*; fn p() { fn need<X: Sync>() {} need::<Box<GA<u8, U3>>>(); } }
+mod q595 { use super::*; fn p() { fn need<X: Copy>() {} need::<GA<u8, U6>>(); } }
+mod q596 { use super::*; fn p() { fn need<X: Sync>() {} need::<&'static GA<u8, U6>>(); } }
+mod q597 { use super::*; fn p() { fn need<X: Copy>() {} need::<Box<GA<u8, U6>>>(); } }
+mod q598 { use super::*; fn p() { fn need<X: Sync>() {} need::<GenericArrayIter<String, U0>>(); } }
+mod q599 { use super::*; fn p() { fn need<X: Copy>() {} need::<&'static GA<String, U0>>(); } }
+mod q600 { use super::*; fn p() { fn need<X: Sync>() {} need::<GA<String, U1>>(); } }
+mod q601 { use super::*; fn p() { fn need<X: Copy>() {} need::<GenericArrayIter<String, U1>>(); } }
+mod q602 { use super::*; fn p() { fn need<X: Sync>() {} need::<Box<GA<String, U1>>>(); } }
+mod q603 { use super::*; fn p() { fn need<X: Copy>() {} need::<GA<String, U2>>(); } }
+mod q604 { use super::*; fn p() { fn need<X: Sync>() {} need::<&'static GA<String, U2>>(); } }
+mod q605 { use super::*; fn p() { fn need<X: Copy>() {} need::<Box<GA<String, U2>>>(); } }
+mod q606 { use super::*; fn p() { fn need<X: Sync>() {} need::<GenericArrayIter<String, U3>>(); } }
+mod q607 { use super::*; fn p() { fn need<X: Copy>() {} need::<&'static GA<String, U3>>(); } }
+mod q608 { use super::*; fn p() { fn need<X: Sync>() {} need::<GA<String, U6>>(); } }
+mod q609 { use super::*; fn p() { fn need<X: Copy>() {} need::<GenericArrayIter<String, U6>>(); } }
+mod q610 { use super::*; fn p() { fn need<X: Sync>() {} need::<Box<GA<String, U6>>>(); } }
+mod q611 { use super::*; fn p() { fn need<X: Copy>() {} need::<GA<std::rc::Rc<u8>, U0>>(); } }
+mod q612 { use super::*; fn p() { fn need<X: Sync>() {} need::<&'static GA<std::rc::Rc<u8>, U0>>(); } }
+mod q613 { use super::*; fn p() { fn need<X: Copy>() {} need::<Box<GA<std::rc::Rc<u8>, U0>>>(); } }
+mod q614 { use super::*; fn p() { fn need<X: Sync>() {} need::<GenericArrayIter<std::rc::Rc<u8>, U1>>(); } }
+mod q615 { use super::*; fn p() { fn need<X: Copy>() {} need::<&'static GA<std::rc::Rc<u8>, U1>>(); } }
+mod q616 { use super::*; fn p() { fn need<X: Sync>() {} need::<GA<std::rc::Rc<u8>, U2>>(); } }
+mod q617 { use super::*; fn p() { fn need<X: Copy>() {} need::<GenericArrayIter<std::rc::Rc<u8>, U2>>(); } }
+mod q618 { use super::*; fn p() { fn need<X: Sync>() {} need::<Box<GA<std::rc::Rc<u8>, U2>>>(); } }
+mod q619 { use super::*; fn p() { fn need<X: Copy>() {} need::<GA<std::rc::Rc<u8>, U3>>(); } }
+mod q620 { use super::*; fn p() { fn need<X: Sync>() {} need::<&'static GA<std::rc::Rc<u8>, U3>>(); } }
+mod q621 { use super::*; fn p() { fn need<X: Copy>() {} need::<Box<GA<std::rc::Rc<u8>, U3>>>(); } }
+mod q622 { use super::*; fn p() { fn need<X: Sync>() {} need::<GenericArrayIter<std::rc::Rc<u8>, U6>>(); } }
+mod q623 { use super::*; fn p() { fn need<X: Copy>() {} need::<&'static GA<std::rc::Rc<u8>, U6>>(); } }
+mod q624 { use super::*; fn p() { fn need<X: Sync>() {} need::<GA<core::cell::Cell<u8>, U0>>(); } }
+mod q625 { use super::*; fn p() { fn need<X: Copy>() {} need::<GenericArrayIter<core::cell::Cell<u8>, U0>>(); } }
+mod q626 { use super::*; fn p() { fn need<X: Sync>() {} need::<Box<GA<core::cell::Cell<u8>, U0>>>(); } }
+mod q627 { use super::*; fn p() { fn need<X: Copy>() {} need::<GA<core::cell::Cell<u8>, U1>>(); } }
+mod q628 { use super::*; fn p() { fn need<X: Sync>() {} need::<&'static GA<core::cell::Cell<u8>, U1>>(); } }
+mod q629 { use super::*; fn p() { fn need<X: Copy>() {} need::<Box<GA<core::cell::Cell<u8>, U1>>>(); } }
+mod q630 { use super::*; fn p() { fn need<X: Sync>() {} need::<GenericArrayIter<core::cell::Cell<u8>, U2>>(); } }
+mod q631 { use super::*; fn p() { fn need<X: Copy>() {} need::<&'static GA<core::cell::Cell<u8>, U2>>(); } }
+mod q632 { use super::*; fn p() { fn need<X: Sync>() {} need::<GA<core::cell::Cell<u8>, U3>>(); } }
+mod q633 { use super::*; fn p() { fn need<X: Copy>() {} need::<GenericArrayIter<core::cell::Cell<u8>, U3>>(); } }
+mod q634 { use super::*; fn p() { fn need<X: Sync>() {} need::<Box<GA<core::cell::Cell<u8>, U3>>>(); } }
+mod q635 { use super::*; fn p() { fn need<X: Copy>() {} need::<GA<core::cell::Cell<u8>, U6>>(); } }
+mod q636 { use super::*; fn p() { fn need<X: Sync>() {} need::<&'static GA<core::cell::Cell<u8>, U6>>(); } }
+mod q637 { use super::*; fn p() { fn need<X: Copy>() {} need::<Box<GA<core::cell::Cell<u8>, U6>>>(); } }
+mod q638 { use super::*; fn p() { fn need<X: Sync>() {} need::<GenericArrayIter<*const u8, U0>>(); } }
+mod q639 { use super::*; fn p() { fn need<X: Copy>() {} need::<&'static GA<*const u8, U0>>(); } }
+mod q640 { use super::*; fn p() { fn need<X: Sync>() {} need::<GA<*const u8, U1>>(); } }
+mod q641 { use super::*; fn p() { fn need<X: Copy>() {} need::<GenericArrayIter<*const u8, U1>>(); } }
+mod q642 { use super::*; fn p() { fn need<X: Sync>() {} need::<Box<GA<*const u8, U1>>>(); } }
+mod q643 { use super::*; fn p() { fn need<X: Copy>() {} need::<GA<*const u8, U2>>(); } }
+mod q644 { use super::*; fn p() { fn need<X: Sync>() {} need::<&'static GA<*const u8, U2>>(); } }
+mod q645 { use super::*; fn p() { fn need<X: Copy>() {} need::<Box<GA<*const u8, U2>>>(); } }
+mod q646 { use super::*; fn p() { fn need<X: Sync>() {} need::<GenericArrayIter<*const u8, U3>>(); } }
+mod q647 { use super::*; fn p() { fn need<X: Copy>() {} need::<&'static GA<*const u8, U3>>(); } }
+mod q648 { use super::*; fn p() { fn need<X: Sync>() {} need::<GA<*const u8, U6>>(); } }
+mod q649 { use super::*; fn p() { fn need<X: Copy>() {} need::<GenericArrayIter<*const u8, U6>>(); } }
+mod q650 { use super::*; fn p() { fn need<X: Sync>() {} need::<Box<GA<*const u8, U6>>>(); } }
+mod q651 { use super::*; fn p() { fn need<X: Copy>() {} need::<GA<std::sync::MutexGuard<'static, u8>, U0>>(); } }
+mod q652 { use super::*; fn p() { fn need<X: Sync>() {} need::<&'static GA<std::sync::MutexGuard<'static, u8>, U0>>(); } }
+mod q653 { use super::*; fn p() { fn need<X: Copy>() {} need::<Box<GA<std::sync::MutexGuard<'static, u8>, U0>>>(); } }
+mod q654 { use super::*; fn p() { fn need<X: Sync>() {} need::<GenericArrayIter<std::sync::MutexGuard<'static, u8>, U1>>(); } }
+mod q655 { use super::*; fn p() { fn need<X: Copy>() {} need::<&'static GA<std::sync::MutexGuard<'static, u8>, U1>>(); } }
+mod q656 { use super::*; fn p() { fn need<X: Sync>() {} need::<GA<std::sync::MutexGuard<'static, u8>, U2>>(); } }
+mod q657 { use super::*; fn p() { fn need<X: Copy>() {} need::<GenericArrayIter<std::sync::MutexGuard<'static, u8>, U2>>(); } }
+mod q658 { use super::*; fn p() { fn need<X: Sync>() {} need::<Box<GA<std::sync::MutexGuard<'static, u8>, U2>>>(); } }
+mod q659 { use super::*; fn p() { fn need<X: Copy>() {} need::<GA<std::sync::MutexGuard<'static, u8>, U3>>(); } }
+mod q660 { use super::*; fn p() { fn need<X: Sync>() {} need::<&'static GA<std::sync::MutexGuard<'static, u8>, U3>>(); } }
+mod q661 { use super::*; fn p() { fn need<X: Copy>() {} need::<Box<GA<std::sync::MutexGuard<'static, u8>, U3>>>(); } }
+mod q662 { use super::*; fn p() { fn need<X: Sync>() {} need::<GenericArrayIter<std::sync::MutexGuard<'static, u8>, U6>>(); } }
+mod q663 { use super::*; fn p() { fn need<X: Copy>() {} need::<&'static GA<std::sync::MutexGuard<'static, u8>, U6>>(); } }
